@@ -2,10 +2,13 @@
    preserved by the operations of the public API.
      Part A: byte-level facts about the percent-encoder; the simple setters, Clone, sp_update.
      Part B: the shapes of what parseHost returns.
-     Part C: a per-state invariant of the parser state machine. *)
+     Part C: a per-state invariant [MInv] of the parser state machine (no state override), one lemma
+             per state for all 21 states, hence Parse / UrlParse / ParseRef establish [Inv].
+     Part D: the same under a state override (the 10 states a setter can reach), hence every setter
+             preserves [Inv]; operation histories (Obs.hstep / Obs.history). *)
 From Verif Require Import Lib.Base Lib.Utf8 Lib.GoStr Model.Cfg Gen.Tables Gen.Options Model.Sets Model.Percent
   Model.Url Model.Host Model.Machine Model.Api Model.Canon Model.Obs Model.Preds.
-From Verif Require Import Proofs.Utf8Proofs Proofs.RecordInv.
+From Verif Require Import Proofs.Utf8Proofs Proofs.Termination Proofs.RecordInv.
 From Coq Require Import Lia ZifyBool ZifyN ZifyNat.
 
 Local Arguments N.mul : simpl never.
@@ -924,4 +927,2581 @@ Proof.
       * cbn [filter map forallb]. unfold ascii_lower, is_upper. destruct ((65 <=? x) && (x <=? 90)) eqn:Eu; lia.
       * unfold ascii_lower, is_upper. destruct ((65 <=? x) && (x <=? 90)) eqn:Eu; lia.
     + destruct d as [|y d']; [reflexivity|apply IH; discriminate].
+Qed.
+
+(* ================================================================== *)
+(* Part C  the parser state machine                                     *)
+(* ================================================================== *)
+
+(* the side condition on the configuration for the machine proofs *)
+Definition cfg_okm (c : cfg) : bool :=
+  cfg_ok c
+  && set_closed (c_pathSet c) && set_closed (c_squerySet c) && set_closed (c_querySet c)
+  && set_closed (c_sfragSet c) && set_closed (c_fragSet c)
+  && forallb (fun b => negb (RuneShouldBeEncoded (c_pathSet c) b)) (58 :: 124 :: bs_ASCIIAlpha)
+  && negb (c_lax c) && negb (c_skipTrailSlash c)
+  && match c_pre c with HF_none => true | _ => false end
+  && match c_post c with HF_none => true | _ => false end
+  && isSpecialScheme c s_file.
+
+Example cfg_okm_default : cfg_okm default_cfg = true.
+Proof. vm_compute. reflexivity. Qed.
+
+Lemma cfg_okm_parts : forall c, cfg_okm c = true ->
+  cfg_ok c = true /\ set_closed (c_pathSet c) = true /\ set_closed (c_squerySet c) = true /\
+  set_closed (c_querySet c) = true /\ set_closed (c_sfragSet c) = true /\ set_closed (c_fragSet c) = true /\
+  forallb (fun b => negb (RuneShouldBeEncoded (c_pathSet c) b)) (58 :: 124 :: bs_ASCIIAlpha) = true /\ c_lax c = false /\ c_skipTrailSlash c = false /\
+  c_pre c = HF_none /\ c_post c = HF_none /\ isSpecialScheme c s_file = true.
+Proof.
+  intros c H. unfold cfg_okm in H.
+  apply andb_true_iff in H; destruct H as [H H12].
+  apply andb_true_iff in H; destruct H as [H H11].
+  apply andb_true_iff in H; destruct H as [H H10].
+  apply andb_true_iff in H; destruct H as [H H9].
+  apply andb_true_iff in H; destruct H as [H H8].
+  apply andb_true_iff in H; destruct H as [H H7].
+  apply andb_true_iff in H; destruct H as [H H6].
+  apply andb_true_iff in H; destruct H as [H H5].
+  apply andb_true_iff in H; destruct H as [H H4].
+  apply andb_true_iff in H; destruct H as [H H3].
+  apply andb_true_iff in H; destruct H as [H1 H2].
+  apply negb_true_iff in H8, H9.
+  repeat split; try assumption.
+  - destruct (c_pre c); try discriminate H10; reflexivity.
+  - destruct (c_post c); try discriminate H11; reflexivity.
+Qed.
+
+(* ------------------------------------------------------------------ *)
+(* itoa                                                                 *)
+
+Lemma digits_val_snoc : forall a d, digits_val 10 (a ++ [d]) = digits_val 10 a * 10 + hex_val d.
+Proof. intros a d. unfold digits_val. rewrite fold_left_app. reflexivity. Qed.
+
+Lemma hex_val_lower : forall k, k < 10 -> hex_val (hex_lower k) = k.
+Proof.
+  intros k H. unfold hex_lower. replace (k <? 10) with true by lia.
+  unfold hex_val, is_digit. replace ((48 <=? 48 + k) && (48 + k <=? 57)) with true by lia. lia.
+Qed.
+
+Lemma fmt_fuel_val : forall fuel n, n < 10 ^ N.of_nat fuel ->
+  digits_val 10 (fmt_fuel 10 hex_lower fuel n) = n.
+Proof.
+  induction fuel as [|f IH]; intros n H.
+  - change (10 ^ N.of_nat 0) with 1 in H. cbn [fmt_fuel]. unfold digits_val. cbn [fold_left]. lia.
+  - cbn [fmt_fuel]. destruct (n <? 10) eqn:E.
+    + unfold digits_val. cbn [fold_left]. rewrite hex_val_lower by lia. lia.
+    + rewrite digits_val_snoc. rewrite IH.
+      * rewrite hex_val_lower by (apply N.mod_lt; lia).
+        pose proof (N.div_mod n 10 ltac:(lia)). lia.
+      * rewrite Nat2N.inj_succ, N.pow_succ_r' in H.
+        apply N.div_lt_upper_bound; lia.
+Qed.
+
+Lemma pos_size_bound : forall p, N.pos p < 2 ^ N.of_nat (Pos.size_nat p).
+Proof.
+  induction p as [p IH|p IH|]; cbn [Pos.size_nat]; rewrite ?Nat2N.inj_succ, ?N.pow_succ_r'; lia.
+Qed.
+
+Lemma pow2_le_pow10 : forall k, 2 ^ k <= 10 ^ k.
+Proof. intro k. apply N.pow_le_mono_l. lia. Qed.
+
+Lemma itoa_fuel_ok : forall n, n < 10 ^ N.of_nat (Datatypes.S (N.size_nat n)).
+Proof.
+  intro n. rewrite Nat2N.inj_succ, N.pow_succ_r'.
+  destruct n as [|p]; [cbn; lia|]. cbn [N.size_nat].
+  pose proof (pos_size_bound p). pose proof (pow2_le_pow10 (N.of_nat (Pos.size_nat p))).
+  assert (0 < 10 ^ N.of_nat (Pos.size_nat p)) by (apply N.neq_0_lt_0; apply N.pow_nonzero; lia). lia.
+Qed.
+
+Lemma itoa_val : forall n, digits_val 10 (itoa n) = n.
+Proof. intro n. unfold itoa. apply fmt_fuel_val. apply itoa_fuel_ok. Qed.
+
+Lemma hex_lower_is_digit : forall k, k < 10 -> is_digit (hex_lower k) = true.
+Proof. intros k H. unfold hex_lower, is_digit. replace (k <? 10) with true by lia. lia. Qed.
+
+Lemma fmt_fuel_head : forall fuel n, 0 < n -> n < 10 ^ N.of_nat fuel ->
+  exists d rest, fmt_fuel 10 hex_lower fuel n = hex_lower d :: rest /\ 1 <= d < 10.
+Proof.
+  induction fuel as [|f IH]; intros n H0 H.
+  - change (10 ^ N.of_nat 0) with 1 in H. lia.
+  - cbn [fmt_fuel]. destruct (n <? 10) eqn:E.
+    + exists n, []. split; [reflexivity|lia].
+    + destruct (IH (n / 10)) as [d [rest [E1 E2]]].
+      * apply N.div_str_pos. lia.
+      * rewrite Nat2N.inj_succ, N.pow_succ_r' in H. apply N.div_lt_upper_bound; lia.
+      * exists d, (rest ++ [hex_lower (n mod 10)]). rewrite E1. split; [reflexivity|exact E2].
+Qed.
+
+Lemma itoa_canonical : forall n, canonical_decimal (itoa n) = true.
+Proof.
+  intro n. unfold canonical_decimal.
+  assert (D : forallb is_digit (itoa n) = true).
+  { unfold itoa. apply fmt_fuel_chars; [lia|apply hex_lower_is_digit]. }
+  rewrite D. pose proof (itoa_nonnil n) as NN.
+  destruct (N.eq_dec n 0) as [->|Hn]; [reflexivity|].
+  destruct (fmt_fuel_head (Datatypes.S (N.size_nat n)) n ltac:(lia) (itoa_fuel_ok n)) as [d [rest [E1 E2]]].
+  unfold itoa. rewrite E1. cbn [is_nil negb andb].
+  assert (E : d = 1 \/ d = 2 \/ d = 3 \/ d = 4 \/ d = 5 \/ d = 6 \/ d = 7 \/ d = 8 \/ d = 9) by lia.
+  repeat (destruct E as [->|E]; [reflexivity|]). subst d. reflexivity.
+Qed.
+
+(* ------------------------------------------------------------------ *)
+(* the invariant of a URL whose list path is still being built          *)
+
+Definition creds (u : url) : bool := negb (is_nil (u_username u)) || negb (is_nil (u_password u)).
+
+Ltac fieldsx :=
+  try unfold qset; try unfold fset; try unfold creds;
+  try unfold isSpecialSchemeAndBackslash; try unfold IsSpecialScheme;
+  cbn [u_input u_scheme u_username u_password u_host u_port u_decodedPort u_path u_opaque u_query u_fragment
+       u_verrs u_sp set_input set_scheme set_username set_password set_host set_port set_path set_query
+       set_fragment set_verrs set_sp].
+Ltac fieldsx_in H :=
+  try unfold qset in H; try unfold fset in H; try unfold creds in H;
+  try unfold isSpecialSchemeAndBackslash in H; try unfold IsSpecialScheme in H;
+  cbn [u_input u_scheme u_username u_password u_host u_port u_decodedPort u_path u_opaque u_query u_fragment
+       u_verrs u_sp set_input set_scheme set_username set_password set_host set_port set_path set_query
+       set_fragment set_verrs set_sp] in H.
+
+Record InvP (c : cfg) (u : url) : Prop := {
+  P_scheme : scheme_ok (u_scheme u) = true;
+  P_list : u_opaque u = false;
+  P_path : forallb (seg_ok c) (u_path u) = true;
+  P_special : IsSpecialScheme c u = true ->
+              exists h, u_host u = Some h /\ (str_eqb (u_scheme u) s_file = true \/ h <> []);
+  P_nocred : (u_host u = None \/ u_host u = Some [] \/ str_eqb (u_scheme u) s_file = true) ->
+             u_username u = [] /\ u_password u = [] /\ u_port u = None;
+  P_port : forall p, u_port u = Some p ->
+           canonical_decimal p = true /\ (digits_val 10 p <=? 65535) = true /\
+           u_decodedPort u = digits_val 10 p /\ getSpecialScheme c (u_scheme u) <> Some p;
+  P_user : none_in pes_UserInfo (u_username u) = true;
+  P_pass : none_in pes_UserInfo (u_password u) = true;
+  P_query : forall q, u_query u = Some q -> none_in (qset c u) q = true;
+  P_frag : forall f, u_fragment u = Some f -> none_in (fset c u) f = true;
+  P_host : forall h, u_host u = Some h -> host_ok (IsSpecialScheme c u) h = true /\ forallb printable h = true
+}.
+
+Lemma InvP_Inv : forall c u, InvP c u ->
+  (u_path u <> [] \/ (IsSpecialScheme c u = false /\ u_host u <> None)) -> Inv c u.
+Proof.
+  intros c u [H1 H2 H3 H4 H5 H6 H7 H8 H9 H10 H11] Hp. constructor; try assumption.
+  - intro E. congruence.
+  - intros _. exact H3.
+  - intro Hs. split; [exact H2|]. split; [|apply H4; exact Hs].
+    destruct Hp as [Hp|[Hp _]]; [exact Hp|congruence].
+  - intros Hh _. destruct Hp as [Hp|[_ Hp]]; [exact Hp|contradiction].
+Qed.
+
+Lemma Inv_InvP : forall c u, Inv c u -> u_opaque u = false -> InvP c u.
+Proof.
+  intros c u [H1 H2 H3 H4 H5 H6 H7 H8 H9 H10 H11 H12] Ho. constructor; try assumption.
+  - apply H3. exact Ho.
+  - intro Hs. destruct (H4 Hs) as [_ [_ E]]. exact E.
+Qed.
+
+Lemma InvP_ext : forall c u u', same_fields u u' -> InvP c u -> InvP c u'.
+Proof.
+  intros c u u' S H. destruct u as [a1 a2 a3 a4 a5 a6 a7 a8 a9 a10 a11 a12 a13], u' as [b1 b2 b3 b4 b5 b6 b7 b8 b9 b10 b11 b12 b13].
+  unfold same_fields in S.
+  cbn [u_scheme u_username u_password u_host u_port u_decodedPort u_path u_opaque u_query u_fragment] in S.
+  destruct S as [A1 [A2 [A3 [A4 [A5 [A6 [A7 [A8 [A9 A10]]]]]]]]]. subst.
+  destruct H as [H1 H2 H3 H4 H5 H6 H7 H8 H9 H10 H11]. constructor; assumption.
+Qed.
+
+(* ------------------------------------------------------------------ *)
+(* shapes of the record in the early states                             *)
+
+Definition rest_blank (u : url) : Prop :=
+  u_username u = [] /\ u_password u = [] /\ u_host u = None /\ u_port u = None /\ u_path u = [] /\
+  u_opaque u = false /\ u_query u = None /\ u_fragment u = None.
+Definition blank (u : url) : Prop := u_scheme u = [] /\ rest_blank u.
+Definition preauth (u : url) : Prop :=
+  scheme_ok (u_scheme u) = true /\ str_eqb (u_scheme u) s_file = false /\ rest_blank u.
+Definition auth_shape (u : url) : Prop :=
+  scheme_ok (u_scheme u) = true /\ str_eqb (u_scheme u) s_file = false /\
+  none_in pes_UserInfo (u_username u) = true /\ none_in pes_UserInfo (u_password u) = true /\
+  u_host u = None /\ u_port u = None /\ u_path u = [] /\ u_opaque u = false /\ u_query u = None /\
+  u_fragment u = None.
+Definition file_shape (u : url) : Prop :=
+  u_scheme u = s_file /\ u_username u = [] /\ u_password u = [] /\ u_host u = Some [] /\ u_port u = None /\
+  u_path u = [] /\ u_opaque u = false /\ u_query u = None /\ u_fragment u = None.
+Definition opq_shape (c : cfg) (u : url) (buf : str) : Prop :=
+  scheme_ok (u_scheme u) = true /\ IsSpecialScheme c u = false /\
+  u_username u = [] /\ u_password u = [] /\ u_host u = None /\ u_port u = None /\ u_path u = [buf] /\
+  u_opaque u = true /\ u_query u = None /\ u_fragment u = None /\
+  none_in pes_C0 buf = true /\ has_prefix [47] buf = false.
+
+Lemma host_ok_nil : forall sp, host_ok sp [] = true.
+Proof. intros [|]; reflexivity. Qed.
+
+Lemma opq_Inv : forall c u buf, opq_shape c u buf -> Inv c u.
+Proof.
+  intros c u buf [H1 [H2 [H3 [H4 [H5 [H6 [H7 [H8 [H9 [H10 [H11 H12]]]]]]]]]]].
+  constructor; try assumption.
+  - intros _. split; [exact H5|]. exists buf. auto.
+  - intro E. congruence.
+  - intro E. congruence.
+  - intros _. auto.
+  - intros _ E. congruence.
+  - intros p E. congruence.
+  - rewrite H3. reflexivity.
+  - rewrite H4. reflexivity.
+  - intros q E. congruence.
+  - intros f E. congruence.
+  - intros h E. congruence.
+Qed.
+
+Lemma preauth_InvP : forall c u, preauth u -> IsSpecialScheme c u = false -> InvP c u.
+Proof.
+  intros c u [H1 [H2 [B1 [B2 [B3 [B4 [B5 [B6 [B7 B8]]]]]]]]] Hs.
+  constructor; try assumption.
+  - rewrite B5. reflexivity.
+  - intro E. congruence.
+  - intros _. auto.
+  - intros p E. congruence.
+  - rewrite B1. reflexivity.
+  - rewrite B2. reflexivity.
+  - intros q E. congruence.
+  - intros f E. congruence.
+  - intros h E. congruence.
+Qed.
+
+Lemma file_shape_InvP : forall c u, isSpecialScheme c s_file = true -> file_shape u -> InvP c u.
+Proof.
+  intros c u Hf [H1 [H2 [H3 [H4 [H5 [H6 [H7 [H8 H9]]]]]]]].
+  constructor; try assumption.
+  - rewrite H1. reflexivity.
+  - rewrite H6. reflexivity.
+  - intros _. exists []. split; [exact H4|]. left. rewrite H1. reflexivity.
+  - intros _. auto.
+  - intros p E. congruence.
+  - rewrite H2. reflexivity.
+  - rewrite H3. reflexivity.
+  - intros q E. congruence.
+  - intros f E. congruence.
+  - intros h E. rewrite H4 in E. injection E as <-. split; [apply host_ok_nil|reflexivity].
+Qed.
+
+(* ------------------------------------------------------------------ *)
+(* facts about U+FFFD, the code point read at the end of the input      *)
+
+Lemma isAlpha_err : isAlpha rune_error = false. Proof. reflexivity. Qed.
+Lemma isAlnum_err : isAlnum rune_error = false. Proof. reflexivity. Qed.
+Lemma isDigit_err : isDigit rune_error = false. Proof. reflexivity. Qed.
+Lemma err_35 : (rune_error =? 35) = false. Proof. reflexivity. Qed.
+Lemma err_43 : (rune_error =? 43) = false. Proof. reflexivity. Qed.
+Lemma err_45 : (rune_error =? 45) = false. Proof. reflexivity. Qed.
+Lemma err_46 : (rune_error =? 46) = false. Proof. reflexivity. Qed.
+Lemma err_47 : (rune_error =? 47) = false. Proof. reflexivity. Qed.
+Lemma err_58 : (rune_error =? 58) = false. Proof. reflexivity. Qed.
+Lemma err_63 : (rune_error =? 63) = false. Proof. reflexivity. Qed.
+Lemma err_64 : (rune_error =? 64) = false. Proof. reflexivity. Qed.
+Lemma err_91 : (rune_error =? 91) = false. Proof. reflexivity. Qed.
+Lemma err_92 : (rune_error =? 92) = false. Proof. reflexivity. Qed.
+Lemma err_93 : (rune_error =? 93) = false. Proof. reflexivity. Qed.
+
+Ltac err_tests :=
+  rewrite ?isAlpha_err, ?isAlnum_err, ?isDigit_err, ?err_35, ?err_43, ?err_45, ?err_46, ?err_47, ?err_58,
+          ?err_63, ?err_64, ?err_91, ?err_92, ?err_93.
+
+Lemma set_verrs_id : forall u, set_verrs u (u_verrs u) = u.
+Proof. intros []. reflexivity. Qed.
+
+Lemma skipn_nth_opt : forall (A : Type) n (l : list A),
+  skipn n l = match nth_opt l n with Some x => x :: skipn (Datatypes.S n) l | None => [] end.
+Proof.
+  intros A n. induction n as [|n IH]; intros [|x l]; try reflexivity.
+  cbn [skipn nth_opt]. rewrite IH. destruct (nth_opt l n); reflexivity.
+Qed.
+
+Lemma nth_opt_none : forall (A : Type) n (l : list A), nth_opt l n = None -> (length l <= n)%nat.
+Proof.
+  intros A n. induction n as [|n IH]; intros [|x l] H; cbn [nth_opt length] in *; try lia; try discriminate.
+  apply IH in H. lia.
+Qed.
+
+
+Lemma table_small : forall l r, forallb (fun x => x <? 128) l = true -> mem r l = true -> r < 128.
+Proof.
+  intros l r Hl Hm. unfold mem in Hm. apply existsb_exists in Hm. destruct Hm as [x [Hx E]].
+  apply N.eqb_eq in E. subst x. rewrite forallb_forall in Hl. specialize (Hl r Hx). lia.
+Qed.
+
+Lemma isAlpha_facts : forall r, isAlpha r = true -> r < 128 /\ is_lower (ascii_lower r) = true.
+Proof.
+  intros r H. assert (Hr : r < 128) by (apply (table_small bs_ASCIIAlpha); [vm_compute; reflexivity|exact H]).
+  split; [exact Hr|].
+  pose proof (below128_sweep (fun r => implb (isAlpha r) (is_lower (ascii_lower r))) ltac:(vm_compute; reflexivity) r Hr) as S.
+  cbv beta in S. rewrite H in S. exact S.
+Qed.
+
+Lemma scheme_char_facts : forall r, isAlnum r || (r =? 43) || (r =? 45) || (r =? 46) = true ->
+  r < 128 /\ scheme_char (ascii_lower r) = true.
+Proof.
+  intros r H. assert (Hr : r < 128).
+  { destruct (isAlnum r) eqn:E; [|cbn [orb] in H; lia].
+    apply (table_small bs_ASCIIAlphanumeric); [vm_compute; reflexivity|exact E]. }
+  split; [exact Hr|].
+  pose proof (below128_sweep (fun r => implb (isAlnum r || (r =? 43) || (r =? 45) || (r =? 46)) (scheme_char (ascii_lower r)))
+                ltac:(vm_compute; reflexivity) r Hr) as S.
+  cbv beta in S. rewrite H in S. exact S.
+Qed.
+
+Lemma isDigit_facts : forall r, isDigit r = true -> r < 128 /\ is_digit r = true.
+Proof.
+  intros r H. assert (Hr : r < 128) by (apply (table_small bs_ASCIIDigit); [vm_compute; reflexivity|exact H]).
+  split; [exact Hr|].
+  pose proof (below128_sweep (fun r => implb (isDigit r) (is_digit r)) ltac:(vm_compute; reflexivity) r Hr) as S.
+  cbv beta in S. rewrite H in S. exact S.
+Qed.
+
+Lemma scheme_ok_snoc : forall s x, scheme_ok s = true -> scheme_char x = true -> scheme_ok (s ++ [x]) = true.
+Proof.
+  intros [|a s] x H Hx; [discriminate H|]. unfold scheme_ok in *. cbn [app].
+  apply andb_true_iff in H. destruct H as [H1 H2]. rewrite H1, forallb_app, H2. cbn [forallb]. rewrite Hx. reflexivity.
+Qed.
+
+Lemma rest_blank_set_verrs : forall u v, rest_blank u -> rest_blank (set_verrs u v).
+Proof. intros u v H. exact H. Qed.
+
+
+(* what the next iteration reads / whether the remaining input starts with '/' *)
+Definition next_r (inp : list rune) (ptr : Z) : N :=
+  if (n_inp inp <=? ptr + 1)%Z then rune_error else cp_at inp (ptr + 1).
+
+Lemma nth_opt_some_lt : forall (A : Type) n (l : list A) x, nth_opt l n = Some x -> (n < length l)%nat.
+Proof.
+  intros A n. induction n as [|n IH]; intros [|y l] x H; cbn [nth_opt length] in *; try discriminate; try lia.
+  apply IH in H. lia.
+Qed.
+
+Lemma rsw_true : forall inp p, remainingStartsWith inp p false [47] = true -> (p + 1 < n_inp inp)%Z.
+Proof.
+  intros inp p H. unfold remainingStartsWith, rest_from in H. cbn [length] in H.
+  destruct (Z.ltb_spec (p + 1) 0) as [Hn|Hn]; [unfold n_inp, len; lia|].
+  rewrite skipn_nth_opt in H. destruct (nth_opt inp (Z.to_nat (p + 1))) eqn:E; [|discriminate H].
+  apply nth_opt_some_lt in E. unfold n_inp, len. lia.
+Qed.
+
+Lemma rsw_false : forall inp p, remainingStartsWith inp p false [47] = false -> (next_r inp p =? 47) = false.
+Proof.
+  intros inp p H. unfold next_r. destruct (n_inp inp <=? p + 1)%Z eqn:E; [reflexivity|].
+  unfold cp_at. destruct (p + 1 <? 0)%Z eqn:En; [reflexivity|].
+  unfold remainingStartsWith, rest_from in H. cbn [length] in H.
+  rewrite skipn_nth_opt in H. destruct (nth_opt inp (Z.to_nat (p + 1))) as [x|]; [|reflexivity].
+  cbn [map firstn list_eqb] in H. rewrite andb_true_r in H. exact H.
+Qed.
+
+Lemma eof2_false : forall inp p, (p + 1 < n_inp inp)%Z -> (n_inp inp <=? p + 1)%Z = false.
+Proof. intros inp p H. apply Z.leb_gt. exact H. Qed.
+
+
+(* transfer along equality of the nine fields other than decodedPort, when there is no port *)
+Definition same_nodp (u u' : url) : Prop :=
+  u_scheme u = u_scheme u' /\ u_username u = u_username u' /\ u_password u = u_password u' /\
+  u_host u = u_host u' /\ u_port u = u_port u' /\
+  u_path u = u_path u' /\ u_opaque u = u_opaque u' /\ u_query u = u_query u' /\ u_fragment u = u_fragment u'.
+
+Lemma Inv_transfer_nodp : forall c u u', Inv c u -> u_port u = None -> same_nodp u u' -> Inv c u'.
+Proof.
+  intros c u u' Hi Hp [A1 [A2 [A3 [A4 [A5 [A6 [A7 [A8 A9]]]]]]]].
+  apply (Inv_ext c (set_port u None (u_decodedPort u'))).
+  - unfold same_fields. cbn [u_scheme u_username u_password u_host u_port u_decodedPort u_path u_opaque u_query
+      u_fragment set_port]. rewrite <- A5, Hp. repeat split; assumption.
+  - apply Inv_set_port_none. exact Hi.
+Qed.
+
+Lemma InvP_transfer_nodp : forall c u u', InvP c u -> u_port u = None -> same_nodp u u' -> InvP c u'.
+Proof.
+  intros c u u' H Hp S.
+  destruct u as [a1 a2 a3 a4 a5 a6 a7 a8 a9 a10 a11 a12 a13], u' as [b1 b2 b3 b4 b5 b6 b7 b8 b9 b10 b11 b12 b13].
+  unfold same_nodp in S.
+  cbn [u_scheme u_username u_password u_host u_port u_decodedPort u_path u_opaque u_query u_fragment] in S, Hp.
+  destruct S as [A1 [A2 [A3 [A4 [A5 [A7 [A8 [A9 A10]]]]]]]]. subst.
+  destruct H as [H1 H2 H3 H4 H5 H6 H7 H8 H9 H10 H11]. constructor; try assumption.
+  intros p E. cbn [u_port] in E. discriminate E.
+Qed.
+
+Lemma Inv_set_fragment_some : forall c u f, Inv c u -> none_in (fset c u) f = true -> Inv c (set_fragment u (Some f)).
+Proof.
+  intros c u f [H1 H2 H3 H4 H5 H6 H7 H8 H9 H10 H11 H12] Hf.
+  constructor; fields; try assumption. intros f' E. injection E as <-. exact Hf.
+Qed.
+
+Lemma none_in_nil : forall t, none_in t [] = true.
+Proof. reflexivity. Qed.
+
+Section MachineC.
+  Variable idna_raw : str -> str * bool.
+  Hypothesis HH3 : H3 idna_raw.
+  Variable c : cfg.
+  Hypothesis Hc : cfg_okm c = true.
+  Variable inp : list rune.
+  Variable base : option url.
+  Hypothesis Hbase : forall b, base = Some b -> Inv c b.
+
+  Notation stepN := (step idna_raw c inp base None).
+
+  Let Hcok : cfg_ok c = true. Proof. apply (cfg_okm_parts c Hc). Qed.
+  Let Hcl_path : set_closed (c_pathSet c) = true. Proof. apply (cfg_okm_parts c Hc). Qed.
+  Let Hcl_squery : set_closed (c_squerySet c) = true. Proof. apply (cfg_okm_parts c Hc). Qed.
+  Let Hcl_query : set_closed (c_querySet c) = true. Proof. apply (cfg_okm_parts c Hc). Qed.
+  Let Hcl_sfrag : set_closed (c_sfragSet c) = true. Proof. apply (cfg_okm_parts c Hc). Qed.
+  Let Hcl_frag : set_closed (c_fragSet c) = true. Proof. apply (cfg_okm_parts c Hc). Qed.
+  Let Hdrive : forallb (fun b => negb (RuneShouldBeEncoded (c_pathSet c) b)) (58 :: 124 :: bs_ASCIIAlpha) = true.
+  Proof. apply (cfg_okm_parts c Hc). Qed.
+  Let H58 : RuneShouldBeEncoded (c_pathSet c) 58 = false.
+  Proof. pose proof Hdrive as H. cbn [forallb] in H. apply andb_true_iff in H. destruct H as [H _]. apply negb_true_iff. exact H. Qed.
+  Let Hlax : c_lax c = false. Proof. apply (cfg_okm_parts c Hc). Qed.
+  Let Htrail : c_skipTrailSlash c = false. Proof. apply (cfg_okm_parts c Hc). Qed.
+  Let Hpre : c_pre c = HF_none. Proof. apply (cfg_okm_parts c Hc). Qed.
+  Let Hpost : c_post c = HF_none. Proof. apply (cfg_okm_parts c Hc). Qed.
+  Let Hfile : isSpecialScheme c s_file = true. Proof. apply (cfg_okm_parts c Hc). Qed.
+
+  (* position q holds a code point that ends the authority / host *)
+  Definition term_at (u : url) (q : Z) : bool :=
+    (n_inp inp <=? q)%Z ||
+    ((cp_at inp q =? 47) || (cp_at inp q =? 63) || (cp_at inp q =? 35) || (IsSpecialScheme c u && (cp_at inp q =? 92))).
+
+  Definition MInv (m : mstate) : Prop :=
+    let u := m_url m in
+    let buf := m_buf m in
+    match m_state m with
+    | SchemeStart => blank u /\ buf = []
+    | Scheme => blank u /\ scheme_ok buf = true
+    | NoScheme => blank u /\ buf = []
+    | SpecialRelativeOrAuthority =>
+        preauth u /\ buf = [] /\ IsSpecialScheme c u = true /\ exists b, base = Some b /\ u_scheme b = u_scheme u
+    | SpecialAuthoritySlashes | SpecialAuthorityIgnoreSlashes => preauth u /\ buf = [] /\ IsSpecialScheme c u = true
+    | PathOrAuthority => preauth u /\ buf = [] /\ IsSpecialScheme c u = false
+    | Authority =>
+        auth_shape u /\ (creds u = true -> m_at m = true) /\
+        (buf <> [] -> term_at u (m_ptr m - len (runes buf) + 1) = false)
+    | HostSt | HostnameSt =>
+        auth_shape u /\ (creds u = true -> buf = [] -> term_at u (m_ptr m + 1) = false)
+    | PortSt =>
+        InvP c u /\ u_path u = [] /\ (exists x h, u_host u = Some (x :: h)) /\
+        str_eqb (u_scheme u) s_file = false /\ u_port u = None /\ u_query u = None /\ u_fragment u = None /\
+        forallb is_digit buf = true
+    | PathStart => InvP c u /\ buf = [] /\ u_path u = [] /\ u_host u <> None /\ u_query u = None /\ u_fragment u = None
+    | PathSt => InvP c u /\ seg_ok c buf = true
+    | File => rest_blank u /\ buf = []
+    | FileSlash | FileHost => file_shape u /\ (m_state m = FileSlash -> buf = [])
+    | OpaquePath => opq_shape c u buf /\ (buf = [] -> (next_r inp (m_ptr m) =? 47) = false)
+    | QuerySt => Inv c u /\ none_in (qset c u) buf = true
+    | FragmentSt => Inv c u /\ none_in (fset c u) buf = true
+    | Relative =>
+        rest_blank u /\ buf = [] /\
+        exists b, base = Some b /\ u_opaque b = false /\ str_eqb (u_scheme b) s_file = false
+    | RelativeSlash =>
+        rest_blank u /\ buf = [] /\
+        exists b, base = Some b /\ u_scheme u = u_scheme b /\ u_opaque b = false /\ str_eqb (u_scheme b) s_file = false
+    end.
+
+  (* when the iteration ends with eof set the loop returns the record *)
+  Definition MInvW (m : mstate) : Prop := if m_eof m then Inv c (m_url m) else MInv m.
+
+  Definition Post (o : outcome) : Prop :=
+    match o with
+    | Cont m' => MInvW m'
+    | RetUrl u => Inv c u
+    | _ => True
+    end.
+
+  Lemma mherr_post : forall u t f k,
+    (forall v, Post (k (set_verrs u v))) -> Post (mherr c u t f k).
+  Proof.
+    intros u t f k H. unfold mherr, handleError.
+    destruct (f || c_fail c); [destruct (c_report c); exact I|].
+    destruct (c_report c); [apply H|]. rewrite <- (set_verrs_id u). apply H.
+  Qed.
+
+  Lemma mherr_fatal : forall u t k, Post (mherr c u t true k).
+  Proof. intros u t k. unfold mherr, handleError. cbn [orb]. destruct (c_report c); exact I. Qed.
+
+  Ltac start_state :=
+    intros [st ptr eof buf atF brF pwF u] Hst Hm He; cbn [m_state m_eof] in Hst, He; subst st eof;
+    unfold MInv in Hm; cbn [m_state m_url m_buf m_ptr m_at] in Hm;
+    unfold step; cbn [m_state m_ptr m_eof m_buf m_at m_br m_pw m_url overridden is_some negb andb];
+    set (p := (ptr + 1)%Z).
+
+  Ltac eof_case := cbv iota; err_tests; cbn [andb orb negb]; cbv iota.
+  Ltac fin := unfold Post, MInvW; cbn [m_eof mk]; unfold MInv; cbn [m_state m_url m_buf m_ptr m_at mk].
+
+  Lemma step_SchemeStart : forall m, m_state m = SchemeStart -> MInv m -> m_eof m = false -> Post (stepN m).
+  Proof.
+    start_state. destruct Hm as [Hb ->].
+    destruct (n_inp inp <=? p)%Z eqn:Heof.
+    - eof_case. fin. auto.
+    - set (r := cp_at inp p). destruct (isAlpha r) eqn:Ha.
+      + fin. split; [exact Hb|].
+        destruct (isAlpha_facts r Ha) as [A1 A2].
+        assert (ascii_lower r < 128) by (clear - A1; unfold ascii_lower; destruct (is_upper r) eqn:E; unfold is_upper in E; lia).
+        rewrite utf8_enc_ascii by assumption. cbn [app scheme_ok forallb]. rewrite A2. reflexivity.
+      + fin. auto.
+  Qed.
+
+
+
+  Lemma blank_rest : forall u s, blank u -> rest_blank (set_scheme u s).
+  Proof. intros u s [_ H]. exact H. Qed.
+
+  Lemma preauth_intro : forall u s, blank u -> scheme_ok s = true -> str_eqb s s_file = false -> preauth (set_scheme u s).
+  Proof. intros u s [_ H] H1 H2. unfold preauth. fieldsx. auto. Qed.
+
+  Lemma step_Scheme : forall m, m_state m = Scheme -> MInv m -> m_eof m = false -> Post (stepN m).
+  Proof.
+    start_state. destruct Hm as [Hb Hbuf].
+    destruct (n_inp inp <=? p)%Z eqn:Heof.
+    - eof_case. fin. auto.
+    - set (r := cp_at inp p).
+      destruct (isAlnum r || (r =? 43) || (r =? 45) || (r =? 46)) eqn:Hsc.
+      + fin. split; [exact Hb|]. destruct (scheme_char_facts r Hsc) as [A1 A2].
+        assert (ascii_lower r < 128) by (clear - A1; unfold ascii_lower; destruct (is_upper r) eqn:E; unfold is_upper in E; lia).
+        rewrite utf8_enc_ascii by assumption. apply scheme_ok_snoc; assumption.
+      + destruct (r =? 58) eqn:H58'; [|fin; auto].
+        pose proof (blank_rest u buf Hb) as Hrb. fieldsx.
+        destruct (str_eqb buf s_file) eqn:Hf.
+        { destruct (negb (remainingStartsWith inp p false [47; 47])).
+          - apply mherr_post. intro v. fin. auto.
+          - fin. auto. }
+        destruct (isSpecialScheme c buf) eqn:Hs.
+        { cbn [andb]. destruct base as [b|] eqn:Eb.
+          - destruct (str_eqb (u_scheme b) buf) eqn:Esb.
+            + fin. fieldsx. apply str_eqb_eq in Esb.
+              split; [apply preauth_intro; assumption|]. split; [reflexivity|]. split; [exact Hs|].
+              exists b. auto.
+            + fin. fieldsx. split; [apply preauth_intro; assumption|]. auto.
+          - fin. fieldsx. split; [apply preauth_intro; assumption|]. auto. }
+        cbn [andb]. destruct (remainingStartsWith inp p false [47]) eqn:Hrs.
+        { rewrite (eof2_false inp p (rsw_true inp p Hrs)). fin. fieldsx.
+          split; [apply preauth_intro; assumption|]. auto. }
+        fin. fieldsx. split; [|intros _; apply rsw_false; exact Hrs].
+        destruct Hrb as [B1 [B2 [B3 [B4 [B5 [B6 [B7 B8]]]]]]].
+        unfold opq_shape. fieldsx. repeat split; auto.
+  Qed.
+
+
+  Lemma step_NoScheme : forall m, m_state m = NoScheme -> MInv m -> m_eof m = false -> Post (stepN m).
+  Proof.
+    start_state. destruct Hm as [Hb ->].
+    set (r := if (n_inp inp <=? p)%Z then rune_error else cp_at inp p).
+    destruct base as [b|] eqn:Eb; [|apply mherr_fatal].
+    pose proof (Hbase b eq_refl) as Hib.
+    destruct (u_opaque b) eqn:Hob.
+    - cbn [andb]. destruct (r =? 35) eqn:H35; cbn [negb]; [|apply mherr_fatal].
+      assert (Heof : (n_inp inp <=? p)%Z = false).
+      { destruct (n_inp inp <=? p)%Z; [|reflexivity]. unfold r in H35. discriminate H35. }
+      rewrite Heof. fin. split; [|reflexivity].
+      destruct Hb as [_ [B1 [B2 [B3 [B4 [B5 [B6 [B7 B8]]]]]]]].
+      destruct (I_opaque _ _ Hib Hob) as [Hh _].
+      destruct (I_nocred _ _ Hib (or_introl Hh)) as [C1 [C2 C3]].
+      apply (Inv_transfer_nodp c (set_fragment b (Some []))).
+      + apply Inv_set_fragment_some; [exact Hib|reflexivity].
+      + exact C3.
+      + unfold same_nodp. fieldsx. rewrite B1, B2, B3, B4, C1, C2, C3, Hh. repeat split; auto.
+    - cbn [andb]. destruct (negb (str_eqb (u_scheme b) s_file)) eqn:Hf.
+      + fin. destruct Hb as [_ Hb]. split; [exact Hb|]. split; [reflexivity|].
+        exists b. apply negb_true_iff in Hf. auto.
+      + fin. destruct Hb as [_ Hb]. auto.
+  Qed.
+
+  Lemma step_SpecialRelativeOrAuthority : forall m, m_state m = SpecialRelativeOrAuthority ->
+    MInv m -> m_eof m = false -> Post (stepN m).
+  Proof.
+    start_state. destruct Hm as [Hpa [-> [Hs [b [Eb Esb]]]]].
+    assert (Hrel : forall v, Post (Cont (mk Relative (p - 1) false [] atF brF pwF (set_verrs u v)))).
+    { intro v. fin. fieldsx. destruct Hpa as [P1 [P2 P3]]. split; [exact P3|]. split; [reflexivity|].
+      exists b. split; [exact Eb|]. rewrite Esb. split; [|exact P2].
+      pose proof (Hbase b Eb) as Hib. unfold IsSpecialScheme in Hs. rewrite <- Esb in Hs.
+      apply (I_special _ _ Hib Hs). }
+    destruct (n_inp inp <=? p)%Z eqn:Heof.
+    - eof_case. apply mherr_post. exact Hrel.
+    - set (r := cp_at inp p). destruct ((r =? 47) && remainingStartsWith inp p false [47]) eqn:E.
+      + apply andb_true_iff in E. destruct E as [_ E].
+        rewrite (eof2_false inp p (rsw_true inp p E)). fin. auto.
+      + apply mherr_post. exact Hrel.
+  Qed.
+
+  Lemma step_SpecialAuthoritySlashes : forall m, m_state m = SpecialAuthoritySlashes ->
+    MInv m -> m_eof m = false -> Post (stepN m).
+  Proof.
+    start_state. destruct Hm as [Hpa [-> Hs]].
+    assert (Hrel : forall v, Post (Cont (mk SpecialAuthorityIgnoreSlashes (p - 1) false [] atF brF pwF (set_verrs u v)))).
+    { intro v. fin. auto. }
+    destruct (n_inp inp <=? p)%Z eqn:Heof.
+    - eof_case. apply mherr_post. exact Hrel.
+    - set (r := cp_at inp p). destruct ((r =? 47) && remainingStartsWith inp p false [47]) eqn:E.
+      + apply andb_true_iff in E. destruct E as [_ E].
+        rewrite (eof2_false inp p (rsw_true inp p E)). fin. auto.
+      + apply mherr_post. exact Hrel.
+  Qed.
+
+  Lemma preauth_auth : forall u, preauth u -> auth_shape u.
+  Proof.
+    intros u [P1 [P2 [B1 [B2 [B3 [B4 [B5 [B6 [B7 B8]]]]]]]]]. unfold auth_shape. rewrite B1, B2.
+    repeat split; auto.
+  Qed.
+
+  Lemma preauth_creds : forall u, preauth u -> creds u = false.
+  Proof. intros u [P1 [P2 [B1 [B2 _]]]]. unfold creds. rewrite B1, B2. reflexivity. Qed.
+
+  Lemma step_SpecialAuthorityIgnoreSlashes : forall m, m_state m = SpecialAuthorityIgnoreSlashes ->
+    MInv m -> m_eof m = false -> Post (stepN m).
+  Proof.
+    start_state. destruct Hm as [Hpa [-> Hs]].
+    assert (Hau : Post (Cont (mk Authority (p - 1) false [] atF brF pwF u))).
+    { fin. split; [apply preauth_auth; exact Hpa|]. rewrite (preauth_creds u Hpa).
+      split; [discriminate|]. intro N; contradiction. }
+    destruct (n_inp inp <=? p)%Z eqn:Heof.
+    - eof_case. exact Hau.
+    - set (r := cp_at inp p). destruct (negb (r =? 47) && negb (r =? 92)).
+      + exact Hau.
+      + apply mherr_post. intro v. fin. auto.
+  Qed.
+
+  Lemma step_PathOrAuthority : forall m, m_state m = PathOrAuthority ->
+    MInv m -> m_eof m = false -> Post (stepN m).
+  Proof.
+    start_state. destruct Hm as [Hpa [-> Hs]].
+    assert (Hps : Post (Cont (mk PathSt (p - 1) false [] atF brF pwF u))).
+    { fin. split; [apply preauth_InvP; assumption|reflexivity]. }
+    destruct (n_inp inp <=? p)%Z eqn:Heof.
+    - eof_case. exact Hps.
+    - set (r := cp_at inp p). destruct (r =? 47).
+      + fin. split; [apply preauth_auth; exact Hpa|]. rewrite (preauth_creds u Hpa).
+        split; [discriminate|]. intro N; contradiction.
+      + exact Hps.
+  Qed.
+
+
+  Lemma set_verrs_twice : forall u v v', set_verrs (set_verrs u v) v' = set_verrs u v'.
+  Proof. reflexivity. Qed.
+
+  (* the two InvalidURLUnit checks in front of the encoders *)
+  Lemma uuc_post : forall (A inv : bool) u (k1 k2 : url -> outcome),
+    (forall v, Post (k1 (set_verrs u v))) -> (forall v, Post (k2 (set_verrs u v))) ->
+    Post ((if A then (fun k' => mherr c u InvalidURLUnit false k') else (fun k' => k' u))
+            (fun u => if inv then mherr c u InvalidURLUnit false k1 else k2 u)).
+  Proof.
+    intros A inv u k1 k2 H1 H2.
+    assert (H2' : Post (k2 u)) by (rewrite <- (set_verrs_id u); apply H2).
+    destruct A.
+    - apply mherr_post. intro v. destruct inv; [|apply H2].
+      apply mherr_post. intro v'. rewrite set_verrs_twice. apply H1.
+    - destruct inv; [|apply H2']. apply mherr_post. intro v. apply H1.
+  Qed.
+
+  Lemma qset_closed : forall u, set_closed (qset c u) = true.
+  Proof. intro u. unfold qset. destruct (IsSpecialScheme c u); assumption. Qed.
+  Lemma fset_closed : forall u, set_closed (fset c u) = true.
+  Proof. intro u. unfold fset. destruct (IsSpecialScheme c u); assumption. Qed.
+
+  Lemma step_QuerySt : forall m, m_state m = QuerySt -> MInv m -> m_eof m = false -> Post (stepN m).
+  Proof.
+    start_state. destruct Hm as [Hi Hbuf].
+    destruct (n_inp inp <=? p)%Z eqn:Heof.
+    - eof_case. fin. apply Inv_set_query_some; assumption.
+    - set (r := cp_at inp p). destruct (r =? 35).
+      + destruct (u_query u) eqn:Hq; [|exact I]. fin. split; [|reflexivity].
+        apply Inv_set_fragment_some; [|reflexivity]. apply Inv_set_query_some; assumption.
+      + cbn [negb]. fieldsx_in Hbuf. apply uuc_post; intro v; fin; fieldsx;
+        (split; [apply Inv_set_verrs; exact Hi|]);
+        rewrite none_in_app;
+        (destruct (isSpecialScheme c (u_scheme u)); rewrite Hbuf; cbn [andb]; apply enc_rune_none_in; assumption).
+  Qed.
+
+  Lemma step_FragmentSt : forall m, m_state m = FragmentSt -> MInv m -> m_eof m = false -> Post (stepN m).
+  Proof.
+    start_state. destruct Hm as [Hi Hbuf].
+    destruct (n_inp inp <=? p)%Z eqn:Heof.
+    - eof_case. fin. apply Inv_set_fragment_some; assumption.
+    - set (r := cp_at inp p). cbn [negb]. fieldsx_in Hbuf. apply uuc_post; intro v; fin; fieldsx;
+      (split; [apply Inv_set_verrs; exact Hi|]);
+      rewrite none_in_app;
+      (destruct (isSpecialScheme c (u_scheme u)); rewrite Hbuf; cbn [andb]; apply enc_rune_none_in; assumption).
+  Qed.
+
+
+  Lemma enc_invalid_nonnil : forall r t, percentEncodeInvalidRune c r t <> [].
+  Proof. intros r t. unfold percentEncodeInvalidRune. destruct (c_singlePct c); apply enc_rune_nonnil. Qed.
+
+  Lemma no47_head : forall s t, forallb (fun b => negb (b =? 47)) s = true -> s <> [] -> has_prefix [47] (s ++ t) = false.
+  Proof.
+    intros [|a s] t H N; [contradiction|]. cbn [forallb] in H. apply andb_true_iff in H. destruct H as [H _].
+    cbn [app has_prefix]. apply negb_true_iff in H. rewrite N.eqb_sym, H. reflexivity.
+  Qed.
+
+  Lemma has_prefix_app_nonnil : forall p s t, s <> [] -> has_prefix [p] (s ++ t) = has_prefix [p] s.
+  Proof. intros p [|a s] t N; [contradiction|]. reflexivity. Qed.
+
+  Lemma opq_append : forall u buf enc v r,
+    opq_shape c u buf -> (buf = [] -> (r =? 47) = false) ->
+    none_in pes_C0 enc = true -> enc <> [] ->
+    (forallb (fun b => negb (b =? 47)) enc = true \/ (r =? 47) = true) ->
+    opq_shape c (set_path (set_verrs u v) [buf ++ enc] true) (buf ++ enc).
+  Proof.
+    intros u buf enc v r [H1 [H2 [H3 [H4 [H5 [H6 [H7 [H8 [H9 [H10 [H11 H12]]]]]]]]]]] Hr He Hn H47.
+    unfold opq_shape. fieldsx. repeat split; auto.
+    - rewrite none_in_app, H11, He. reflexivity.
+    - destruct buf as [|a buf].
+      + cbn [app]. destruct H47 as [H47|H47]; [|rewrite (Hr eq_refl) in H47; discriminate].
+        rewrite <- (app_nil_r enc). apply no47_head; assumption.
+      + rewrite has_prefix_app_nonnil by discriminate. exact H12.
+  Qed.
+
+  Lemma step_OpaquePath : forall m, m_state m = OpaquePath -> MInv m -> m_eof m = false -> Post (stepN m).
+  Proof.
+    start_state. destruct Hm as [Ho Hn]. unfold next_r in Hn. fold p in Hn.
+    pose proof (opq_Inv c u buf Ho) as Hi.
+    destruct (n_inp inp <=? p)%Z eqn:Heof.
+    - eof_case. fin. exact Hi.
+    - set (r := cp_at inp p) in *. destruct (r =? 63).
+      { fin. split; [|reflexivity]. apply Inv_set_query_some; [exact Hi|reflexivity]. }
+      destruct (r =? 35).
+      { fin. split; [|reflexivity]. apply Inv_set_fragment_some; [exact Hi|reflexivity]. }
+      cbn [negb].
+      apply uuc_post; intro v; fin; fieldsx.
+      + split.
+        * apply (opq_append u buf _ v r Ho Hn).
+          -- apply enc_invalid_none_in. exact c0_closed.
+          -- apply enc_invalid_nonnil.
+          -- destruct (r =? 47) eqn:E47; [right; reflexivity|left].
+             apply Q_enc_invalid; [reflexivity|reflexivity|]. intros _. rewrite E47. reflexivity.
+        * intro E. exfalso. apply app_eq_nil in E. destruct E as [_ E]. revert E. apply enc_invalid_nonnil.
+      + split.
+        * apply (opq_append u buf _ v r Ho Hn).
+          -- apply enc_rune_none_in. exact c0_closed.
+          -- apply enc_rune_nonnil.
+          -- destruct (r =? 47) eqn:E47; [right; reflexivity|left].
+             apply Q_enc_rune; [reflexivity|reflexivity|]. intros _. rewrite E47. reflexivity.
+        * intro E. exfalso. apply app_eq_nil in E. destruct E as [_ E]. revert E. apply enc_rune_nonnil.
+  Qed.
+
+
+  Lemma InvP_set_verrs : forall u v, InvP c u -> InvP c (set_verrs u v).
+  Proof. intros u v. apply InvP_ext. repeat split. Qed.
+
+  Lemma InvP_set_port_some : forall u n, InvP c u -> (exists x h, u_host u = Some (x :: h)) ->
+    str_eqb (u_scheme u) s_file = false -> n <= 65535 ->
+    getSpecialScheme c (u_scheme u) <> Some (itoa n) ->
+    InvP c (set_port u (Some (itoa n)) n).
+  Proof.
+    intros u n [H1 H2 H3 H4 H5 H6 H7 H8 H9 H10 H11] [x [h Hh]] Hf Hn Hd.
+    constructor; fieldsx; try assumption.
+    - intros [E|[E|E]]; congruence.
+    - intros p' E. injection E as <-. rewrite itoa_val. split; [apply itoa_canonical|].
+      split; [clear - Hn; lia|]. split; [reflexivity|exact Hd].
+  Qed.
+
+  Lemma InvP_set_port_none : forall u d, InvP c u -> InvP c (set_port u None d).
+  Proof.
+    intros u d [H1 H2 H3 H4 H5 H6 H7 H8 H9 H10 H11].
+    constructor; fieldsx; try assumption.
+    - intro E. destruct (H5 E) as [A [B _]]. auto.
+    - intros p' E. discriminate E.
+  Qed.
+
+  Lemma InvP_clean_port : forall u n, InvP c u -> (exists x h, u_host u = Some (x :: h)) ->
+    str_eqb (u_scheme u) s_file = false -> n <= 65535 ->
+    InvP c (cleanDefaultPort c (set_port u (Some (itoa n)) n)).
+  Proof.
+    intros u n Hp Hh Hf Hn. unfold cleanDefaultPort. fieldsx.
+    destruct (getSpecialScheme c (u_scheme u)) as [dp|] eqn:Ed.
+    - destruct (str_eqb dp (itoa n)) eqn:E.
+      + apply (InvP_ext c (set_port u None 0)); [repeat split|]. apply InvP_set_port_none. exact Hp.
+      + apply InvP_set_port_some; try assumption. rewrite Ed. intro X. injection X as ->.
+        rewrite str_eqb_refl in E. discriminate E.
+    - apply InvP_set_port_some; try assumption. rewrite Ed. discriminate.
+  Qed.
+
+  Lemma clean_port_fields : forall u n,
+    let u' := cleanDefaultPort c (set_port u (Some (itoa n)) n) in
+    u_path u' = u_path u /\ u_host u' = u_host u /\ u_query u' = u_query u /\ u_fragment u' = u_fragment u.
+  Proof.
+    intros u n. unfold cleanDefaultPort. fieldsx.
+    destruct (getSpecialScheme c (u_scheme u)) as [dp|]; [destruct (str_eqb dp (itoa n))|]; repeat split.
+  Qed.
+
+  Lemma step_PortSt : forall m, m_state m = PortSt -> MInv m -> m_eof m = false -> Post (stepN m).
+  Proof.
+    start_state. destruct Hm as [Hp [Hpath [Hh [Hf [Hport [Hq [Hfr Hbuf]]]]]]].
+    set (r := if (n_inp inp <=? p)%Z then rune_error else cp_at inp p).
+    set (eof := if (n_inp inp <=? p)%Z then true else false).
+    destruct (isDigit r) eqn:Hd.
+    - assert (Heof : eof = false).
+      { unfold eof, r in *. destruct (n_inp inp <=? p)%Z; [discriminate Hd|reflexivity]. }
+      rewrite Heof. fin. do 7 (split; [assumption|]).
+      destruct (isDigit_facts r Hd) as [D1 D2]. rewrite utf8_enc_ascii by exact D1.
+      rewrite forallb_app, Hbuf. cbn [forallb]. rewrite D2. reflexivity.
+    - rewrite orb_false_r.
+      destruct (eof || (r =? 47) || (r =? 63) || (r =? 35) || isSpecialSchemeAndBackslash c u r); [|apply mherr_fatal].
+      destruct (negb (is_nil buf)) eqn:Hnb.
+      + destruct (65535 <? digits_val 10 buf) eqn:Hbig; [apply mherr_fatal|].
+        assert (Hn : digits_val 10 buf <= 65535) by (clear - Hbig; lia).
+        fin. destruct (clean_port_fields u (digits_val 10 buf)) as [E1 [E2 [E3 E4]]].
+        rewrite E1, E2, E3, E4. split; [apply InvP_clean_port; assumption|].
+        destruct Hh as [x [h Hh]]. rewrite Hh. repeat split; auto; try discriminate.
+      + fin. apply negb_false_iff in Hnb. apply is_nil_true in Hnb.
+        split; [exact Hp|]. split; [exact Hnb|]. split; [exact Hpath|].
+        destruct Hh as [x [h Hh]]. rewrite Hh. split; [discriminate|]. auto.
+  Qed.
+
+  Lemma step_PathStart : forall m, m_state m = PathStart -> MInv m -> m_eof m = false -> Post (stepN m).
+  Proof.
+    start_state. destruct Hm as [Hp [-> [Hpath [Hh [Hq Hfr]]]]].
+    rewrite Htrail. cbn [negb]. rewrite andb_true_r.
+    set (r := if (n_inp inp <=? p)%Z then rune_error else cp_at inp p).
+    set (eof := if (n_inp inp <=? p)%Z then true else false).
+    destruct (IsSpecialScheme c u) eqn:Hs.
+    - assert (K : forall v, Post (if negb (r =? 47) && negb (r =? 92)
+                                   then Cont (mk PathSt (p - 1) false [] atF brF pwF (set_verrs u v))
+                                   else Cont (mk PathSt p eof [] atF brF pwF (set_verrs u v)))).
+      { intro v. destruct (negb (r =? 47) && negb (r =? 92)) eqn:E.
+        - fin. split; [apply InvP_set_verrs; exact Hp|reflexivity].
+        - assert (Heof : eof = false).
+          { unfold eof, r in *. destruct (n_inp inp <=? p)%Z; [discriminate E|reflexivity]. }
+          rewrite Heof. fin. split; [apply InvP_set_verrs; exact Hp|reflexivity]. }
+      destruct (r =? 92).
+      + apply mherr_post. exact K.
+      + rewrite <- (set_verrs_id u). apply K.
+    - assert (Hi : Inv c u).
+      { apply InvP_Inv; [exact Hp|]. right. auto. }
+      destruct (r =? 63) eqn:H63.
+      { assert (Heof : eof = false).
+        { unfold eof, r in *. destruct (n_inp inp <=? p)%Z; [discriminate H63|reflexivity]. }
+        rewrite Heof. fin. split; [|reflexivity]. apply Inv_set_query_some; [exact Hi|reflexivity]. }
+      destruct (r =? 35) eqn:H35.
+      { assert (Heof : eof = false).
+        { unfold eof, r in *. destruct (n_inp inp <=? p)%Z; [discriminate H35|reflexivity]. }
+        rewrite Heof. fin. split; [|reflexivity]. apply Inv_set_fragment_some; [exact Hi|reflexivity]. }
+      destruct eof eqn:Heof; cbn [negb].
+      + fin. exact Hi.
+      + destruct (negb (r =? 47)); fin; (split; [exact Hp|reflexivity]).
+  Qed.
+
+
+
+  (* what the path state does to the record when a segment ends *)
+  Definition path_upd (u : url) (buf : str) (slashlike : bool) : url :=
+    let path := u_path u in
+    let replaceLast := c_collapse c && IsSpecialScheme c u && negb (is_nil path)
+                       && match last_opt path with Some s => is_nil s | None => false end in
+    if isDoubleDotPathSegment buf then
+      let u := set_path u (shortenPath (u_scheme u) path) (u_opaque u) in
+      if negb slashlike then addSegment u [] else u
+    else if isSingleDotPathSegment buf && negb slashlike then
+      if negb replaceLast then addSegment u [] else u
+    else if negb (isSingleDotPathSegment buf) then
+      let buf' :=
+        if str_eqb (u_scheme u) s_file && (is_nil path || (replaceLast && (len path =? 1)%Z))
+           && isWindowsDriveLetter buf && negb (c_skipDrive c)
+        then match buf with b0 :: _ => [b0; 58] | [] => buf end
+        else buf in
+      if negb replaceLast then addSegment u buf' else set_path u (replace_last path buf') (u_opaque u)
+    else u.
+
+  Definition path_done (p : Z) (eof atF brF pwF : bool) (r : N) (u' : url) : outcome :=
+    if r =? 63 then Cont (mk QuerySt p eof [] atF brF pwF (set_query u' (Some [])))
+    else if r =? 35 then Cont (mk FragmentSt p eof [] atF brF pwF (set_fragment u' (Some [])))
+    else Cont (mk PathSt p eof [] atF brF pwF u').
+
+  Lemma forallb_removelast : forall (A : Type) (f : A -> bool) l, forallb f l = true -> forallb f (removelast l) = true.
+  Proof.
+    intros A f l. induction l as [|x l IH]; [reflexivity|].
+    cbn [forallb removelast]. intro H. apply andb_true_iff in H. destruct H as [H1 H2].
+    destruct l as [|y l]; [reflexivity|]. cbn [forallb]. rewrite H1. apply IH. exact H2.
+  Qed.
+
+  Lemma forallb_replace_last : forall (A : Type) (f : A -> bool) l x, forallb f l = true -> f x = true ->
+    forallb f (replace_last l x) = true.
+  Proof.
+    intros A f l x. induction l as [|y l IH]; [reflexivity|].
+    cbn [forallb replace_last]. intros H Hx. apply andb_true_iff in H. destruct H as [H1 H2].
+    destruct l as [|z l]; [cbn [forallb]; rewrite Hx; reflexivity|].
+    cbn [forallb]. rewrite H1. apply IH; assumption.
+  Qed.
+
+  Lemma replace_last_nonnil : forall (A : Type) (l : list A) x, l <> [] -> replace_last l x <> [].
+  Proof. intros A [|y [|z l]] x H; [contradiction|discriminate|discriminate]. Qed.
+
+  Lemma shortenPath_ok : forall s p, forallb (seg_ok c) p = true -> forallb (seg_ok c) (shortenPath s p) = true.
+  Proof.
+    intros s p H. unfold shortenPath. destruct p as [|x [|y l]].
+    - reflexivity.
+    - destruct (str_eqb s s_file && isNormalizedWindowsDriveLetter x); [exact H|reflexivity].
+    - apply forallb_removelast. exact H.
+  Qed.
+
+  Lemma InvP_set_path : forall u p, InvP c u -> forallb (seg_ok c) p = true -> InvP c (set_path u p false).
+  Proof.
+    intros u p [H1 H2 H3 H4 H5 H6 H7 H8 H9 H10 H11] Hp. constructor; fieldsx; try assumption. reflexivity.
+  Qed.
+
+  Lemma InvP_addSegment : forall u s, InvP c u -> seg_ok c s = true -> InvP c (addSegment u s).
+  Proof.
+    intros u s Hp Hs. unfold addSegment. apply InvP_set_path; [exact Hp|].
+    rewrite forallb_app, (P_path _ _ Hp). cbn [forallb]. rewrite Hs. reflexivity.
+  Qed.
+
+  Lemma seg_ok_nil : seg_ok c [] = true.
+  Proof. reflexivity. Qed.
+
+  Lemma seg_ok_drive : forall b0 rest, seg_ok c (b0 :: rest) = true -> seg_ok c [b0; 58] = true.
+  Proof.
+    intros b0 rest H. unfold seg_ok, none_in, mem in *. cbn [forallb existsb] in *.
+    apply andb_true_iff in H. destruct H as [H1 H2]. apply andb_true_iff in H1. destruct H1 as [H1 _].
+    apply negb_true_iff in H2. apply orb_false_iff in H2. destruct H2 as [H2 _].
+    rewrite H1, H58, H2. reflexivity.
+  Qed.
+
+  Lemma path_upd_ok : forall u buf sl, InvP c u -> seg_ok c buf = true ->
+    InvP c (path_upd u buf sl) /\ (sl = false -> u_path (path_upd u buf sl) <> []).
+  Proof.
+    intros u buf sl Hp Hbuf. unfold path_upd. cbv zeta.
+    pose proof (P_list _ _ Hp) as Hl. rewrite Hl.
+    set (rl := c_collapse c && IsSpecialScheme c u && negb (is_nil (u_path u))
+               && match last_opt (u_path u) with Some s => is_nil s | None => false end).
+    assert (Hrl : rl = true -> u_path u <> []).
+    { unfold rl. intro E. apply andb_true_iff in E. destruct E as [E _]. apply andb_true_iff in E.
+      destruct E as [_ E]. apply negb_true_iff in E. apply is_nil_false in E. exact E. }
+    assert (Hsnoc : forall (l : list str) x, l ++ [x] <> []) by (intros [|? ?] x; discriminate).
+    destruct (isDoubleDotPathSegment buf).
+    { pose proof (InvP_set_path u _ Hp (shortenPath_ok (u_scheme u) _ (P_path _ _ Hp))) as H1.
+      destruct sl; cbn [negb].
+      - split; [exact H1|discriminate].
+      - split; [apply InvP_addSegment; [exact H1|reflexivity]|]. intros _. unfold addSegment. fieldsx. apply Hsnoc. }
+    destruct (isSingleDotPathSegment buf) eqn:Hsd.
+    { destruct sl; cbn [negb andb].
+      - split; [exact Hp|discriminate].
+      - destruct rl eqn:Erl; cbn [negb].
+        + split; [exact Hp|]. intros _. apply Hrl. reflexivity.
+        + split; [apply InvP_addSegment; [exact Hp|reflexivity]|]. intros _. unfold addSegment. fieldsx. apply Hsnoc. }
+    cbn [andb negb].
+    set (buf' := if str_eqb (u_scheme u) s_file && (is_nil (u_path u) || rl && (len (u_path u) =? 1)%Z)
+                    && isWindowsDriveLetter buf && negb (c_skipDrive c)
+                 then match buf with b0 :: _ => [b0; 58] | [] => buf end else buf).
+    assert (Hb' : seg_ok c buf' = true).
+    { unfold buf'. destruct (_ && negb (c_skipDrive c)); [|exact Hbuf].
+      destruct buf as [|b0 rest]; [exact Hbuf|]. apply (seg_ok_drive b0 rest Hbuf). }
+    destruct rl eqn:Erl; cbn [negb].
+    - split.
+      + apply InvP_set_path; [exact Hp|]. apply forallb_replace_last; [apply (P_path _ _ Hp)|exact Hb'].
+      + intros _. fieldsx. apply replace_last_nonnil. apply Hrl. reflexivity.
+    - split; [apply InvP_addSegment; assumption|]. intros _. unfold addSegment. fieldsx. apply Hsnoc.
+  Qed.
+
+  Lemma no47_mem : forall s, forallb (fun b => negb (b =? 47)) s = true -> mem 47 s = false.
+  Proof.
+    intros s H. unfold mem. induction s as [|x s IH]; [reflexivity|].
+    cbn [forallb existsb] in *. apply andb_true_iff in H. destruct H as [H1 H2].
+    apply negb_true_iff in H1. rewrite N.eqb_sym, H1, (IH H2). reflexivity.
+  Qed.
+
+  Lemma seg_ok_app : forall a b, seg_ok c a = true -> none_in (c_pathSet c) b = true ->
+    forallb (fun b => negb (b =? 47)) b = true -> seg_ok c (a ++ b) = true.
+  Proof.
+    intros a b Ha Hb1 Hb2. unfold seg_ok in *. apply andb_true_iff in Ha. destruct Ha as [A1 A2].
+    rewrite none_in_app, A1, Hb1. cbn [andb]. unfold mem in *. rewrite existsb_app.
+    apply negb_true_iff in A2. rewrite A2. cbn [orb]. apply negb_true_iff. apply (no47_mem b Hb2).
+  Qed.
+
+  Lemma step_PathSt : forall m, m_state m = PathSt -> MInv m -> m_eof m = false -> Post (stepN m).
+  Proof.
+    start_state. destruct Hm as [Hp Hbuf].
+    set (r := if (n_inp inp <=? p)%Z then rune_error else cp_at inp p).
+    set (eof := if (n_inp inp <=? p)%Z then true else false).
+    assert (Heofr : eof = true -> r = rune_error).
+    { unfold eof, r. destruct (n_inp inp <=? p)%Z; [reflexivity|discriminate]. }
+    destruct (eof || (r =? 47) || isSpecialSchemeAndBackslash c u r || ((r =? 63) || (r =? 35))) eqn:Hterm.
+    - change (Post ((if isSpecialSchemeAndBackslash c u r
+                     then (fun k => mherr c u InvalidReverseSolidus false k) else (fun k => k u))
+                    (fun u0 => path_done p eof atF brF pwF r
+                                 (path_upd u0 buf ((r =? 47) || isSpecialSchemeAndBackslash c u0 r))))).
+      assert (K : forall v, Post (path_done p eof atF brF pwF r
+                   (path_upd (set_verrs u v) buf ((r =? 47) || isSpecialSchemeAndBackslash c (set_verrs u v) r)))).
+      { intro v. set (sl := (r =? 47) || isSpecialSchemeAndBackslash c (set_verrs u v) r).
+        destruct (path_upd_ok (set_verrs u v) buf sl (InvP_set_verrs u v Hp) Hbuf) as [K1 K2].
+        assert (Hsl : (r =? 47) = false -> (r =? 92) = false -> sl = false).
+        { intros E1 E2. unfold sl, isSpecialSchemeAndBackslash. rewrite E1, E2, andb_false_r. reflexivity. }
+        unfold path_done. destruct (r =? 63) eqn:H63.
+        { assert (Hne : eof = false).
+          { destruct eof; [|reflexivity]. rewrite (Heofr eq_refl) in H63. discriminate H63. }
+          rewrite Hne. fin. split; [|reflexivity]. apply Inv_set_query_some; [|reflexivity].
+          apply InvP_Inv; [exact K1|]. left. apply K2. apply Hsl.
+          - apply N.eqb_eq in H63. rewrite H63. reflexivity.
+          - apply N.eqb_eq in H63. rewrite H63. reflexivity. }
+        destruct (r =? 35) eqn:H35.
+        { assert (Hne : eof = false).
+          { destruct eof; [|reflexivity]. rewrite (Heofr eq_refl) in H35. discriminate H35. }
+          rewrite Hne. fin. split; [|reflexivity]. apply Inv_set_fragment_some; [|reflexivity].
+          apply InvP_Inv; [exact K1|]. left. apply K2. apply Hsl.
+          - apply N.eqb_eq in H35. rewrite H35. reflexivity.
+          - apply N.eqb_eq in H35. rewrite H35. reflexivity. }
+        destruct eof eqn:Heof.
+        - fin. apply InvP_Inv; [exact K1|]. left. apply K2. apply Hsl; rewrite (Heofr eq_refl); reflexivity.
+        - fin. split; [exact K1|reflexivity]. }
+      destruct (isSpecialSchemeAndBackslash c u r).
+      + apply mherr_post. exact K.
+      + rewrite <- (set_verrs_id u). apply K.
+    - apply orb_false_iff in Hterm. destruct Hterm as [Hterm _].
+      apply orb_false_iff in Hterm. destruct Hterm as [Hterm _].
+      apply orb_false_iff in Hterm. destruct Hterm as [Heof H47]. rewrite Heof.
+      assert (Q : forall t, RuneShouldBeEncoded t r = false -> negb (r =? 47) = true)
+        by (intros t _; rewrite H47; reflexivity).
+      apply uuc_post; intro v; fin; (split; [apply InvP_set_verrs; exact Hp|]); apply seg_ok_app; try assumption.
+      + apply enc_invalid_none_in. assumption.
+      + apply Q_enc_invalid; [reflexivity|reflexivity|apply Q].
+      + apply enc_rune_none_in. assumption.
+      + apply Q_enc_rune; [reflexivity|reflexivity|apply Q].
+  Qed.
+
+
+  Lemma InvP_set_query_none : forall u, InvP c u -> InvP c (set_query u None).
+  Proof.
+    intros u [H1 H2 H3 H4 H5 H6 H7 H8 H9 H10 H11]. constructor; fieldsx; try assumption.
+    intros q E. discriminate E.
+  Qed.
+  Lemma InvP_set_fragment_none : forall u, InvP c u -> InvP c (set_fragment u None).
+  Proof.
+    intros u [H1 H2 H3 H4 H5 H6 H7 H8 H9 H10 H11]. constructor; fieldsx; try assumption.
+    intros q E. discriminate E.
+  Qed.
+
+  (* the base without query and fragment, with another list path *)
+  Lemma base_InvP : forall b p, Inv c b -> u_opaque b = false -> forallb (seg_ok c) p = true ->
+    InvP c (set_path (set_fragment (set_query b None) None) p false).
+  Proof.
+    intros b p Hib Hob Hp. apply InvP_set_path; [|exact Hp].
+    apply InvP_set_fragment_none. apply InvP_set_query_none. apply Inv_InvP; assumption.
+  Qed.
+
+  Lemma step_Relative : forall m, m_state m = Relative -> MInv m -> m_eof m = false -> Post (stepN m).
+  Proof.
+    start_state. destruct Hm as [Hrb [-> [b [Eb [Hob Hfb]]]]]. rewrite Eb.
+    pose proof (Hbase b Eb) as Hib.
+    set (r := if (n_inp inp <=? p)%Z then rune_error else cp_at inp p).
+    set (eof := if (n_inp inp <=? p)%Z then true else false).
+    assert (Heofr : eof = true -> r = rune_error).
+    { unfold eof, r. destruct (n_inp inp <=? p)%Z; [reflexivity|discriminate]. }
+    pose proof Hrb as [B1 [B2 [B3 [B4 [B5 [B6 [B7 B8]]]]]]].
+    assert (Hrs : forall v, eof = false ->
+              Post (Cont (mk RelativeSlash p eof [] atF brF pwF (set_verrs (set_scheme u (u_scheme b)) v)))).
+    { intros v E. rewrite E. fin. split; [exact Hrb|]. split; [reflexivity|]. exists b. fieldsx. auto. }
+    destruct (r =? 47) eqn:H47.
+    { assert (Hne : eof = false) by (destruct eof; [rewrite (Heofr eq_refl) in H47; discriminate H47|reflexivity]).
+      rewrite <- (set_verrs_id (set_scheme u (u_scheme b))). apply Hrs. exact Hne. }
+    destruct (isSpecialSchemeAndBackslash c (set_scheme u (u_scheme b)) r) eqn:Hsab.
+    { assert (Hne : eof = false).
+      { destruct eof; [|reflexivity]. rewrite (Heofr eq_refl) in Hsab.
+        unfold isSpecialSchemeAndBackslash in Hsab. rewrite andb_false_r in Hsab. discriminate Hsab. }
+      apply mherr_post. intro v. apply Hrs. exact Hne. }
+    unfold copy_base_auth. fieldsx.
+    destruct (r =? 63) eqn:H63.
+    { assert (Hne : eof = false) by (destruct eof; [rewrite (Heofr eq_refl) in H63; discriminate H63|reflexivity]).
+      rewrite Hne. fin. split; [|reflexivity].
+      apply (Inv_ext c (set_fragment (set_query b (Some [])) None)).
+      - unfold same_fields. fieldsx. rewrite B8. repeat split.
+      - apply Inv_set_fragment_none. apply Inv_set_query_some; [exact Hib|reflexivity]. }
+    destruct (r =? 35) eqn:H35.
+    { assert (Hne : eof = false) by (destruct eof; [rewrite (Heofr eq_refl) in H35; discriminate H35|reflexivity]).
+      rewrite Hne. fin. split; [|reflexivity].
+      apply (Inv_ext c (set_fragment b (Some []))).
+      - unfold same_fields. fieldsx. repeat split.
+      - apply Inv_set_fragment_some; [exact Hib|reflexivity]. }
+    destruct eof eqn:Heof; cbn [negb].
+    - fin. apply (Inv_ext c (set_fragment b None)).
+      + unfold same_fields. fieldsx. rewrite B8. repeat split.
+      + apply Inv_set_fragment_none. exact Hib.
+    - fin. split; [|reflexivity].
+      apply (InvP_ext c (set_path (set_fragment (set_query b None) None) (shortenPath (u_scheme b) (u_path b)) false)).
+      + unfold same_fields. fieldsx. rewrite B8, Hob. repeat split.
+      + apply base_InvP; try assumption. apply shortenPath_ok. apply (I_path _ _ Hib Hob).
+  Qed.
+
+  Lemma step_RelativeSlash : forall m, m_state m = RelativeSlash -> MInv m -> m_eof m = false -> Post (stepN m).
+  Proof.
+    start_state. destruct Hm as [Hrb [-> [b [Eb [Esb [Hob Hfb]]]]]]. rewrite Eb.
+    pose proof (Hbase b Eb) as Hib.
+    set (r := if (n_inp inp <=? p)%Z then rune_error else cp_at inp p).
+    set (eof := if (n_inp inp <=? p)%Z then true else false).
+    assert (Heofr : eof = true -> r = rune_error).
+    { unfold eof, r. destruct (n_inp inp <=? p)%Z; [reflexivity|discriminate]. }
+    pose proof Hrb as [B1 [B2 [B3 [B4 [B5 [B6 [B7 B8]]]]]]].
+    assert (Hpa : preauth u).
+    { unfold preauth. rewrite Esb. split; [apply (I_scheme _ _ Hib)|]. auto. }
+    destruct (IsSpecialScheme c u && ((r =? 47) || (r =? 92))) eqn:Hsp.
+    { apply andb_true_iff in Hsp. destruct Hsp as [Hs Hr].
+      assert (Hne : eof = false).
+      { destruct eof; [|reflexivity]. rewrite (Heofr eq_refl) in Hr. discriminate Hr. }
+      rewrite Hne.
+      assert (K : forall v, Post (Cont (mk SpecialAuthorityIgnoreSlashes p false [] atF brF pwF (set_verrs u v)))).
+      { intro v. fin. auto. }
+      destruct (r =? 92); [apply mherr_post; exact K|]. rewrite <- (set_verrs_id u). apply K. }
+    destruct (r =? 47) eqn:H47.
+    { assert (Hne : eof = false) by (destruct eof; [rewrite (Heofr eq_refl) in H47; discriminate H47|reflexivity]).
+      rewrite Hne. fin. split; [apply preauth_auth; exact Hpa|]. rewrite (preauth_creds u Hpa).
+      split; [discriminate|]. intro N; contradiction. }
+    fin. split; [|reflexivity]. unfold copy_base_auth.
+    apply (InvP_ext c (set_path (set_fragment (set_query b None) None) [] false)).
+    - unfold same_fields. fieldsx. rewrite B5, B6, B7, B8, Esb. repeat split.
+    - apply base_InvP; try assumption. reflexivity.
+  Qed.
+
+
+  Lemma file_scheme_ok : scheme_ok s_file = true. Proof. reflexivity. Qed.
+
+  Lemma file_shape_intro : forall u, rest_blank u -> file_shape (set_host (set_scheme u s_file) (Some [])).
+  Proof. intros u [B1 [B2 [B3 [B4 [B5 [B6 [B7 B8]]]]]]]. unfold file_shape. fieldsx. auto 10. Qed.
+
+  Lemma file_shape_verrs : forall u v, file_shape u -> file_shape (set_verrs u v).
+  Proof. intros u v H. exact H. Qed.
+
+  (* a file URL whose host comes from a file base *)
+  Lemma file_base_host_InvP : forall u b, file_shape u -> Inv c b -> u_scheme b = s_file ->
+    InvP c (set_host u (u_host b)).
+  Proof.
+    intros u b [H1 [H2 [H3 [H4 [H5 [H6 [H7 [H8 H9]]]]]]]] Hib Esb.
+    assert (Hsb : IsSpecialScheme c b = true) by (unfold IsSpecialScheme; rewrite Esb; exact Hfile).
+    destruct (I_special _ _ Hib Hsb) as [_ [_ [h [Hh _]]]].
+    constructor; fieldsx; try assumption.
+    - rewrite H1. reflexivity.
+    - rewrite H6. reflexivity.
+    - intros _. exists h. split; [exact Hh|]. left. rewrite H1. reflexivity.
+    - intros _. auto.
+    - intros p' E. congruence.
+    - rewrite H2. reflexivity.
+    - rewrite H3. reflexivity.
+    - intros q E. congruence.
+    - intros f E. congruence.
+    - intros h' E. rewrite H1. pose proof (I_host _ _ Hib h' E) as X. unfold IsSpecialScheme in X.
+      rewrite Esb in X. exact X.
+  Qed.
+
+  Lemma step_File : forall m, m_state m = File -> MInv m -> m_eof m = false -> Post (stepN m).
+  Proof.
+    start_state. destruct Hm as [Hrb ->].
+    set (r := if (n_inp inp <=? p)%Z then rune_error else cp_at inp p).
+    set (eof := if (n_inp inp <=? p)%Z then true else false).
+    assert (Heofr : eof = true -> r = rune_error).
+    { unfold eof, r. destruct (n_inp inp <=? p)%Z; [reflexivity|discriminate]. }
+    pose proof (file_shape_intro u Hrb) as Hfs.
+    set (u1 := set_host (set_scheme u s_file) (Some [])) in *.
+    pose proof Hrb as [B1 [B2 [B3 [B4 [B5 [B6 [B7 B8]]]]]]].
+    assert (Hps : Post (Cont (mk PathSt (p - 1) false [] atF brF pwF u1))).
+    { fin. split; [apply file_shape_InvP; assumption|reflexivity]. }
+    destruct ((r =? 47) || (r =? 92)) eqn:Hsl.
+    { assert (Hne : eof = false) by (destruct eof; [rewrite (Heofr eq_refl) in Hsl; discriminate Hsl|reflexivity]).
+      rewrite Hne.
+      assert (K : forall v, Post (Cont (mk FileSlash p false [] atF brF pwF (set_verrs u1 v)))).
+      { intro v. fin. split; [exact Hfs|reflexivity]. }
+      destruct (r =? 92); [apply mherr_post; exact K|]. rewrite <- (set_verrs_id u1). apply K. }
+    destruct base as [b|] eqn:Eb; [|exact Hps].
+    destruct (str_eqb (u_scheme b) s_file) eqn:Esb; [|exact Hps].
+    apply str_eqb_eq in Esb. pose proof (Hbase b eq_refl) as Hib.
+    assert (Hsb : IsSpecialScheme c b = true) by (unfold IsSpecialScheme; rewrite Esb; exact Hfile).
+    destruct (I_special _ _ Hib Hsb) as [Hob _].
+    destruct (I_nocred _ _ Hib) as [C1 [C2 C3]]; [right; right; rewrite Esb; reflexivity|].
+    unfold u1. fieldsx.
+    destruct (r =? 63) eqn:H63.
+    { assert (Hne : eof = false) by (destruct eof; [rewrite (Heofr eq_refl) in H63; discriminate H63|reflexivity]).
+      rewrite Hne. fin. split; [|reflexivity].
+      apply (Inv_transfer_nodp c (set_fragment (set_query b (Some [])) None)).
+      - apply Inv_set_fragment_none. apply Inv_set_query_some; [exact Hib|reflexivity].
+      - exact C3.
+      - unfold same_nodp. fieldsx. rewrite B1, B2, B4, B8, C1, C2, C3, Esb, Hob. repeat split. }
+    destruct (r =? 35) eqn:H35.
+    { assert (Hne : eof = false) by (destruct eof; [rewrite (Heofr eq_refl) in H35; discriminate H35|reflexivity]).
+      rewrite Hne. fin. split; [|reflexivity].
+      apply (Inv_transfer_nodp c (set_fragment b (Some []))).
+      - apply Inv_set_fragment_some; [exact Hib|reflexivity].
+      - exact C3.
+      - unfold same_nodp. fieldsx. rewrite B1, B2, B4, C1, C2, C3, Esb, Hob. repeat split. }
+    destruct eof eqn:Heof; cbn [negb].
+    - fin. apply (Inv_transfer_nodp c (set_fragment b None)).
+      + apply Inv_set_fragment_none. exact Hib.
+      + exact C3.
+      + unfold same_nodp. fieldsx. rewrite B1, B2, B4, B8, C1, C2, C3, Esb, Hob. repeat split.
+    - destruct (negb (startsWithAWindowsDriveLetter (remainingFromPointer inp p false))).
+      + fin. split; [|reflexivity].
+        apply (InvP_transfer_nodp c (set_path (set_fragment (set_query b None) None) (shortenPath s_file (u_path b)) false)).
+        * apply base_InvP; try assumption. apply shortenPath_ok. apply (I_path _ _ Hib Hob).
+        * exact C3.
+        * unfold same_nodp. fieldsx. rewrite B1, B2, B4, B8, C1, C2, C3, Esb, Hob. repeat split.
+      + apply mherr_post. intro v. fin. split; [|reflexivity]. fieldsx.
+        apply (InvP_transfer_nodp c (set_path (set_fragment (set_query b None) None) [] false)).
+        * apply base_InvP; try assumption. reflexivity.
+        * exact C3.
+        * unfold same_nodp. fieldsx. rewrite B1, B2, B4, B8, C1, C2, C3, Esb. repeat split.
+  Qed.
+
+  Lemma step_FileSlash : forall m, m_state m = FileSlash -> MInv m -> m_eof m = false -> Post (stepN m).
+  Proof.
+    start_state. destruct Hm as [Hfs Hb]. specialize (Hb eq_refl). subst buf.
+    set (r := if (n_inp inp <=? p)%Z then rune_error else cp_at inp p).
+    set (eof := if (n_inp inp <=? p)%Z then true else false).
+    assert (Heofr : eof = true -> r = rune_error).
+    { unfold eof, r. destruct (n_inp inp <=? p)%Z; [reflexivity|discriminate]. }
+    destruct ((r =? 47) || (r =? 92)) eqn:Hsl.
+    { assert (Hne : eof = false) by (destruct eof; [rewrite (Heofr eq_refl) in Hsl; discriminate Hsl|reflexivity]).
+      rewrite Hne.
+      assert (K : forall v, Post (Cont (mk FileHost p false [] atF brF pwF (set_verrs u v)))).
+      { intro v. fin. split; [exact Hfs|]. intro E. discriminate E. }
+      destruct (r =? 92); [apply mherr_post; exact K|]. rewrite <- (set_verrs_id u). apply K. }
+    fin. split; [|reflexivity].
+    pose proof (file_shape_InvP c u Hfile Hfs) as Hpu.
+    destruct base as [b|] eqn:Eb; [|exact Hpu].
+    destruct (str_eqb (u_scheme b) s_file) eqn:Esb; [|exact Hpu].
+    apply str_eqb_eq in Esb. pose proof (Hbase b eq_refl) as Hib.
+    pose proof (file_base_host_InvP u b Hfs Hib Esb) as Hph.
+    destruct (u_path b) as [|seg0 rest] eqn:Epb; [exact Hph|].
+    destruct (negb (startsWithAWindowsDriveLetter (remainingFromPointer inp p eof)) && isNormalizedWindowsDriveLetter seg0);
+      [|exact Hph].
+    apply InvP_addSegment; [exact Hph|].
+    assert (Hsb : IsSpecialScheme c b = true) by (unfold IsSpecialScheme; rewrite Esb; exact Hfile).
+    destruct (I_special _ _ Hib Hsb) as [Hob _].
+    pose proof (I_path _ _ Hib Hob) as Hpp. rewrite Epb in Hpp. cbn [forallb] in Hpp.
+    apply andb_true_iff in Hpp. apply Hpp.
+  Qed.
+
+
+  Lemma drive_seg_ok : forall buf, isWindowsDriveLetter buf = true -> seg_ok c buf = true.
+  Proof.
+    intros buf H. destruct buf as [|a [|b [|x y]]]; try discriminate H.
+    unfold isWindowsDriveLetter in H. apply andb_true_iff in H. destruct H as [Ha Hb].
+    pose proof (proj1 (forallb_forall _ _) Hdrive) as F.
+    assert (Ia : In a (58 :: 124 :: bs_ASCIIAlpha)).
+    { right. right. unfold isAlpha, bs_test, mem in Ha. apply existsb_exists in Ha.
+      destruct Ha as [x [Hx E]]. apply N.eqb_eq in E. subst x. exact Hx. }
+    assert (Ib : In b (58 :: 124 :: bs_ASCIIAlpha)).
+    { apply orb_true_iff in Hb. destruct Hb as [Hb|Hb]; apply N.eqb_eq in Hb; subst b; [left|right; left]; reflexivity. }
+    assert (Ha47 : (47 =? a) = false).
+    { destruct (47 =? a) eqn:E; [|reflexivity]. apply N.eqb_eq in E. subst a. discriminate Ha. }
+    assert (Hb47 : (47 =? b) = false).
+    { apply orb_true_iff in Hb. destruct Hb as [Hb|Hb]; apply N.eqb_eq in Hb; subst b; reflexivity. }
+    unfold seg_ok, none_in, mem. cbn [forallb existsb]. rewrite (F a Ia), (F b Ib), Ha47, Hb47. reflexivity.
+  Qed.
+
+  Lemma file_host_InvP : forall u h, file_shape u -> host_ok true h = true -> forallb printable h = true ->
+    InvP c (set_host u (Some h)).
+  Proof.
+    intros u h [H1 [H2 [H3 [H4 [H5 [H6 [H7 [H8 H9]]]]]]]] Hh1 Hh2.
+    assert (Hs : isSpecialScheme c (u_scheme u) = true) by (rewrite H1; exact Hfile).
+    constructor; fieldsx; try assumption.
+    - rewrite H1. reflexivity.
+    - rewrite H6. reflexivity.
+    - intros _. exists h. split; [reflexivity|]. left. rewrite H1. reflexivity.
+    - intros _. auto.
+    - intros p' E. congruence.
+    - rewrite H2. reflexivity.
+    - rewrite H3. reflexivity.
+    - intros q E. congruence.
+    - intros f E. congruence.
+    - intros h' E. injection E as <-. rewrite Hs. auto.
+  Qed.
+
+  Lemma step_FileHost : forall m, m_state m = FileHost -> MInv m -> m_eof m = false -> Post (stepN m).
+  Proof.
+    start_state. destruct Hm as [Hfs _].
+    set (r := if (n_inp inp <=? p)%Z then rune_error else cp_at inp p).
+    set (eof := if (n_inp inp <=? p)%Z then true else false).
+    pose proof (file_shape_InvP c u Hfile Hfs) as Hpu.
+    pose proof Hfs as [F1 [F2 [F3 [F4 [F5 [F6 [F7 [F8 F9]]]]]]]].
+    destruct (eof || (r =? 47) || (r =? 92) || (r =? 63) || (r =? 35)) eqn:Hterm.
+    - destruct (isWindowsDriveLetter buf) eqn:Hdl.
+      { apply mherr_post. intro v. fin. split; [apply InvP_set_verrs; exact Hpu|]. apply drive_seg_ok. exact Hdl. }
+      destruct (is_nil buf) eqn:Hnil.
+      { apply is_nil_true in Hnil. subst buf. fin. fieldsx. split; [|rewrite F6, F8, F9; repeat split; auto; discriminate].
+        apply file_host_InvP; [exact Hfs|apply host_ok_nil|reflexivity]. }
+      assert (Hsp : IsSpecialScheme c u = true) by (unfold IsSpecialScheme; rewrite F1; exact Hfile).
+      rewrite Hsp. cbn [negb].
+      destruct (parseHost idna_raw c u buf false) as [u1 host|u1 e] eqn:EP; [|exact I].
+      destruct (parseHost_ok idna_raw HH3 c u buf false u1 host Hlax Hpre Hpost EP) as [O1 [O2 [O3 O4]]].
+      rewrite O1. fin. fieldsx. rewrite F6, F8, F9. split; [|repeat split; auto; discriminate].
+      apply file_host_InvP; [exact Hfs| |].
+      + destruct (str_eqb host s_localhost); [apply host_ok_nil|exact O2].
+      + destruct (str_eqb host s_localhost); [reflexivity|exact O3].
+    - assert (Heof : eof = false).
+      { destruct eof; [discriminate Hterm|reflexivity]. }
+      rewrite Heof. fin. split; [exact Hfs|]. intro E. discriminate E.
+  Qed.
+
+
+
+  Lemma cred_loop_ok : forall l pw user pass pw' user' pass',
+    cred_loop c l pw user pass = (pw', user', pass') ->
+    none_in pes_UserInfo user = true -> none_in pes_UserInfo pass = true ->
+    none_in pes_UserInfo user' = true /\ none_in pes_UserInfo pass' = true.
+  Proof.
+    induction l as [|ch l IH]; intros pw user pass pw' user' pass' H Hu Hp.
+    - cbn [cred_loop] in H. injection H as _ <- <-. auto.
+    - cbn [cred_loop] in H. destruct ((ch =? 58) && negb pw).
+      + apply (IH _ _ _ _ _ _ H); assumption.
+      + destruct pw.
+        * apply (IH _ _ _ _ _ _ H); [assumption|]. rewrite none_in_app, Hp. cbn [andb].
+          apply enc_rune_none_in. exact userinfo_closed.
+        * apply (IH _ _ _ _ _ _ H); [|assumption]. rewrite none_in_app, Hu. cbn [andb].
+          apply enc_rune_none_in. exact userinfo_closed.
+  Qed.
+
+  Lemma auth_shape_verrs : forall u v, auth_shape u -> auth_shape (set_verrs u v).
+  Proof. intros u v H. exact H. Qed.
+
+  Lemma step_Authority : forall m, m_state m = Authority -> MInv m -> m_eof m = false -> Post (stepN m).
+  Proof.
+    start_state. destruct Hm as [Hau [Hcr Hpos]].
+    set (r := if (n_inp inp <=? p)%Z then rune_error else cp_at inp p).
+    set (eof := if (n_inp inp <=? p)%Z then true else false).
+    assert (Heofr : eof = true -> r = rune_error).
+    { unfold eof, r. destruct (n_inp inp <=? p)%Z; [reflexivity|discriminate]. }
+    pose proof Hau as [A1 [A2 [A3 [A4 [A5 [A6 [A7 [A8 [A9 A10]]]]]]]]].
+    destruct (r =? 64) eqn:H64.
+    { assert (Hne : eof = false) by (destruct eof; [rewrite (Heofr eq_refl) in H64; discriminate H64|reflexivity]).
+      rewrite Hne. apply mherr_post. intro v. fieldsx.
+      match goal with |- context [cred_loop ?a ?b ?d ?e ?f] =>
+        destruct (cred_loop a b d e f) as [[pw' user'] pass'] eqn:EC end.
+      destruct (cred_loop_ok _ _ _ _ _ _ _ EC A3 A4) as [U1 U2].
+      cbv beta iota. fin. split; [unfold auth_shape; fieldsx; auto 12|]. split; [reflexivity|]. intro N; contradiction. }
+    destruct (eof || (r =? 47) || (r =? 63) || (r =? 35) || isSpecialSchemeAndBackslash c u r) eqn:Hterm.
+    - assert (K : forall v, atF && is_nil buf = false ->
+                  Post (Cont (mk HostSt (p - (len (runes buf) + 1)) false [] atF brF pwF (set_verrs u v)))).
+      { intros v Hat. fin. split; [exact Hau|]. fieldsx. intros Hc' _.
+        specialize (Hcr Hc'). rewrite Hcr in Hat. cbn [andb] in Hat. apply is_nil_false in Hat.
+        specialize (Hpos Hat). fieldsx_in Hpos.
+        replace (p - (len (runes buf) + 1) + 1)%Z with (ptr - len (runes buf) + 1)%Z by (clear; unfold p; lia).
+        exact Hpos. }
+      destruct (atF && is_nil buf) eqn:Hat; [apply mherr_fatal|].
+      rewrite <- (set_verrs_id u). apply K. reflexivity.
+    - apply orb_false_iff in Hterm. destruct Hterm as [Hterm Hsab].
+      apply orb_false_iff in Hterm. destruct Hterm as [Hterm H35].
+      apply orb_false_iff in Hterm. destruct Hterm as [Hterm H63].
+      apply orb_false_iff in Hterm. destruct Hterm as [Heof H47]. rewrite Heof.
+      fin. split; [exact Hau|]. split; [exact Hcr|]. intros _.
+      rewrite runes_snoc_len.
+      assert (Hr : r = cp_at inp p /\ (n_inp inp <=? p)%Z = false).
+      { unfold eof, r in *. destruct (n_inp inp <=? p)%Z; [discriminate Heof|auto]. }
+      destruct Hr as [Hr Hlt].
+      destruct buf as [|b0 buf'].
+      + change (len (runes [])) with 0%Z. replace (p - (0 + 1) + 1)%Z with p by (clear; lia).
+        unfold term_at. rewrite Hlt, <- Hr. fieldsx_in Hsab. fieldsx. rewrite H47, H63, H35, Hsab. reflexivity.
+      + replace (p - (len (runes (b0 :: buf')) + 1) + 1)%Z with (ptr - len (runes (b0 :: buf')) + 1)%Z
+          by (clear; unfold p; lia).
+        apply Hpos. discriminate.
+  Qed.
+
+
+  Lemma creds_false : forall u, creds u = false -> u_username u = [] /\ u_password u = [].
+  Proof.
+    intros u H. unfold creds in H. apply orb_false_iff in H. destruct H as [H1 H2].
+    apply negb_false_iff in H1, H2. apply is_nil_true in H1, H2. auto.
+  Qed.
+
+  (* the authority is complete: the record with its host *)
+  Lemma auth_host_InvP : forall u h, auth_shape u ->
+    host_ok (IsSpecialScheme c u) h = true -> forallb printable h = true ->
+    (h = [] -> creds u = false /\ IsSpecialScheme c u = false) ->
+    InvP c (set_host u (Some h)).
+  Proof.
+    intros u h [A1 [A2 [A3 [A4 [A5 [A6 [A7 [A8 [A9 A10]]]]]]]]] Hh1 Hh2 Hnil.
+    constructor; fieldsx; try assumption.
+    - rewrite A7. reflexivity.
+    - intros Hs. exists h. split; [reflexivity|]. right. intro E. destruct (Hnil E) as [_ X].
+      unfold IsSpecialScheme in X. congruence.
+    - intros [E|[E|E]]; [discriminate E| |congruence].
+      injection E as E. destruct (Hnil E) as [X _]. destruct (creds_false u X) as [U1 U2]. auto.
+    - intros p' E. congruence.
+    - intros q E. congruence.
+    - intros f E. congruence.
+    - intros h' E. injection E as <-. auto.
+  Qed.
+
+  Lemma step_Host_gen : forall st, st = HostSt \/ st = HostnameSt ->
+    forall m, m_state m = st -> MInv m -> m_eof m = false -> Post (stepN m).
+  Proof.
+    intros st0 Hst0.
+    intros [st ptr eof buf atF brF pwF u] Hst Hm He; cbn [m_state m_eof] in Hst, He; subst st eof.
+    assert (Hm' : auth_shape u /\ (creds u = true -> buf = [] -> term_at u (ptr + 1) = false)).
+    { destruct Hst0 as [-> | ->]; exact Hm. }
+    clear Hm. destruct Hm' as [Hau Hcr].
+    assert (Hgoal : forall (P : outcome -> Prop),
+      P (let p := (ptr + 1)%Z in
+         let eof := if (n_inp inp <=? p)%Z then true else false in
+         let r := if (n_inp inp <=? p)%Z then rune_error else cp_at inp p in
+         if (r =? 58) && negb brF then
+           (if is_nil buf then (fun k => mherr c u HostMissing true k) else (fun k => k u))
+           (fun u => match parseHost idna_raw c u buf (negb (IsSpecialScheme c u)) with
+                     | Er u e => RetErr u e
+                     | Ok u host => Cont (mk PortSt p eof [] atF brF pwF (set_host u (Some host)))
+                     end)
+         else if eof || ((r =? 47) || (r =? 63) || (r =? 35) || isSpecialSchemeAndBackslash c u r) then
+           if IsSpecialScheme c u && is_nil buf then mherr c u HostMissing true (fun u' => Cont (mk st0 (p - 1)%Z false buf atF brF pwF u'))
+           else match parseHost idna_raw c u buf (negb (IsSpecialScheme c u)) with
+                | Er u e => RetErr u e
+                | Ok u host => Cont (mk PathStart (p - 1)%Z false [] atF brF pwF (set_host u (Some host)))
+                end
+         else
+           let brF' := if r =? 91 then true else if r =? 93 then false else brF in
+           let bytes := match rune_at inp p with
+                        | Some (Bad b) => if c_acceptInvalid c then [b] else utf8_enc r
+                        | _ => utf8_enc r end in
+           Cont (mk st0 p eof (buf ++ bytes) atF brF' pwF u)) ->
+      P (stepN {| m_state := st0; m_ptr := ptr; m_eof := false; m_buf := buf; m_at := atF; m_br := brF; m_pw := pwF; m_url := u |})).
+    { intros P HP. destruct Hst0 as [-> | ->]; exact HP. }
+    apply (Hgoal Post). clear Hgoal. cbv zeta.
+    set (p := (ptr + 1)%Z).
+    set (r := if (n_inp inp <=? p)%Z then rune_error else cp_at inp p).
+    set (eof := if (n_inp inp <=? p)%Z then true else false).
+    assert (Heofr : eof = true -> r = rune_error).
+    { unfold eof, r. destruct (n_inp inp <=? p)%Z; [reflexivity|discriminate]. }
+    pose proof Hau as [A1 [A2 [A3 [A4 [A5 [A6 [A7 [A8 [A9 A10]]]]]]]]].
+    destruct ((r =? 58) && negb brF) eqn:Hcolon.
+    { assert (Hne : eof = false).
+      { destruct eof; [|reflexivity]. rewrite (Heofr eq_refl) in Hcolon. discriminate Hcolon. }
+      rewrite Hne. destruct (is_nil buf) eqn:Hnil; [apply mherr_fatal|]. apply is_nil_false in Hnil.
+      destruct (parseHost idna_raw c u buf (negb (IsSpecialScheme c u))) as [u1 host|u1 e] eqn:EP; [|exact I].
+      destruct (parseHost_ok idna_raw HH3 c u buf _ u1 host Hlax Hpre Hpost EP) as [O1 [O2 [O3 O4]]].
+      rewrite negb_involutive in O2. specialize (O4 Hnil).
+      rewrite O1. fin. fieldsx. rewrite A2, A6, A7, A9, A10.
+      split; [|destruct host as [|x h]; [contradiction|]; repeat split; auto; exists x, h; reflexivity].
+      apply (InvP_ext c (set_host u (Some host))); [repeat split|].
+      apply auth_host_InvP; try assumption. intro E. contradiction. }
+    destruct (eof || ((r =? 47) || (r =? 63) || (r =? 35) || isSpecialSchemeAndBackslash c u r)) eqn:Hterm.
+    - destruct (IsSpecialScheme c u && is_nil buf) eqn:Hsn; [apply mherr_fatal|].
+      destruct (parseHost idna_raw c u buf (negb (IsSpecialScheme c u))) as [u1 host|u1 e] eqn:EP; [|exact I].
+      destruct (parseHost_ok idna_raw HH3 c u buf _ u1 host Hlax Hpre Hpost EP) as [O1 [O2 [O3 O4]]].
+      rewrite negb_involutive in O2.
+      assert (Hta : term_at u p = true).
+      { unfold term_at. unfold eof, r in Hterm. fieldsx_in Hterm. fieldsx.
+        destruct (n_inp inp <=? p)%Z; [reflexivity|]. cbn [orb] in Hterm |- *. exact Hterm. }
+      assert (Hnil : host = [] -> creds u = false /\ IsSpecialScheme c u = false).
+      { intro E. assert (Hb : buf = []).
+        { destruct buf as [|b0 b']; [reflexivity|]. exfalso. apply O4; [discriminate|exact E]. }
+        split.
+        - destruct (creds u) eqn:Ecr; [|reflexivity]. specialize (Hcr eq_refl Hb). fold p in Hcr. congruence.
+        - rewrite Hb in Hsn. cbn [is_nil] in Hsn. rewrite andb_true_r in Hsn. exact Hsn. }
+      rewrite O1. fin. fieldsx. rewrite A7, A9, A10.
+      split; [|repeat split; auto; discriminate].
+      apply (InvP_ext c (set_host u (Some host))); [repeat split|].
+      apply auth_host_InvP; assumption.
+    - assert (Hne : eof = false) by (destruct eof; [discriminate Hterm|reflexivity]).
+      rewrite Hne.
+      assert (Hm2 : auth_shape u /\ (creds u = true ->
+                buf ++ match rune_at inp p with
+                       | Some (Bad b) => if c_acceptInvalid c then [b] else utf8_enc r
+                       | _ => utf8_enc r end = [] -> term_at u (p + 1) = false)).
+      { split; [exact Hau|]. intros _ E. exfalso. apply app_eq_nil in E. destruct E as [_ E].
+        destruct (rune_at inp p) as [[x|b]|]; try (revert E; apply utf8_enc_nonempty).
+        destruct (c_acceptInvalid c); [discriminate E|revert E; apply utf8_enc_nonempty]. }
+      unfold Post, MInvW. cbn [m_eof mk]. unfold MInv. cbn [m_state m_url m_buf m_ptr m_at mk].
+      destruct Hst0 as [-> | ->]; exact Hm2.
+  Qed.
+
+  Lemma step_HostSt : forall m, m_state m = HostSt -> MInv m -> m_eof m = false -> Post (stepN m).
+  Proof. apply step_Host_gen. left. reflexivity. Qed.
+  Lemma step_HostnameSt : forall m, m_state m = HostnameSt -> MInv m -> m_eof m = false -> Post (stepN m).
+  Proof. apply step_Host_gen. right. reflexivity. Qed.
+
+
+  (* ---------- the invariant is preserved by every step ---------- *)
+  Theorem step_MInv : forall m, MInv m -> m_eof m = false -> Post (stepN m).
+  Proof.
+    intros m Hm He. destruct (m_state m) eqn:Hst.
+    - apply step_SchemeStart; assumption.
+    - apply step_Scheme; assumption.
+    - apply step_NoScheme; assumption.
+    - apply step_OpaquePath; assumption.
+    - apply step_SpecialRelativeOrAuthority; assumption.
+    - apply step_SpecialAuthoritySlashes; assumption.
+    - apply step_SpecialAuthorityIgnoreSlashes; assumption.
+    - apply step_PathOrAuthority; assumption.
+    - apply step_Authority; assumption.
+    - apply step_HostSt; assumption.
+    - apply step_HostnameSt; assumption.
+    - apply step_File; assumption.
+    - apply step_FileHost; assumption.
+    - apply step_FileSlash; assumption.
+    - apply step_PortSt; assumption.
+    - apply step_PathSt; assumption.
+    - apply step_PathStart; assumption.
+    - apply step_QuerySt; assumption.
+    - apply step_FragmentSt; assumption.
+    - apply step_Relative; assumption.
+    - apply step_RelativeSlash; assumption.
+  Qed.
+
+  (* ---------- hence every URL the loop returns satisfies the record invariant ---------- *)
+  Theorem run_Inv : forall fuel m u, MInv m -> m_eof m = false ->
+    run idna_raw c inp base None fuel m = RUrl u -> Inv c u.
+  Proof.
+    induction fuel as [|f IH]; intros m u Hm He H; [discriminate H|].
+    cbn [run] in H. pose proof (step_MInv m Hm He) as HP.
+    destruct (stepN m) as [m'|u'|u' e|u'|] eqn:ES; try discriminate H.
+    - unfold Post, MInvW in HP. destruct (m_eof m') eqn:He'.
+      + injection H as <-. exact HP.
+      + apply (IH m' u HP He' H).
+    - injection H as <-. exact HP.
+  Qed.
+
+  Lemma MInv_initial : forall u, blank u -> MInv (mk SchemeStart (-1)%Z false [] false false false u).
+  Proof. intros u H. unfold MInv. cbn [m_state m_url m_buf mk]. auto. Qed.
+
+End MachineC.
+
+(* ------------------------------------------------------------------ *)
+(* Parsing establishes the invariant                                    *)
+
+Lemma blank_empty : forall s, blank (empty_url s).
+Proof. intro s. unfold blank, rest_blank. cbn. auto 10. Qed.
+
+Lemma blank_set_input : forall u s, blank u -> blank (set_input u s).
+Proof. intros u s H. exact H. Qed.
+
+Lemma blank_handleError : forall c u t f, blank u -> blank (fst (handleError c u t f)).
+Proof. intros c u t f H. unfold handleError. cbn [fst]. destruct (c_report c); exact H. Qed.
+
+Section ParseInv.
+  Variable idna_raw : str -> str * bool.
+  Hypothesis HH3 : H3 idna_raw.
+  Variable c : cfg.
+  Hypothesis Hc : cfg_okm c = true.
+
+  Theorem BasicParser_Inv : forall s baseUrl u,
+    (forall b, baseUrl = Some b -> Inv c b) ->
+    BasicParser idna_raw c s baseUrl None None = RUrl u -> Inv c u.
+  Proof.
+    intros s baseUrl u Hb H. unfold BasicParser in H.
+    assert (Hb' : forall b, option_map clone baseUrl = Some b -> Inv c b).
+    { intros b E. destruct baseUrl as [b0|]; [|discriminate E]. cbn [option_map] in E. injection E as <-.
+      apply Inv_set_verrs. apply Hb. reflexivity. }
+    (* whatever the tab/newline removal returns *)
+    assert (K : forall u0 (i : str) (changed : bool), blank u0 ->
+      (if changed
+       then match handleError c u0 InvalidURLUnit false with
+            | (u', Some e) => RErr u' e
+            | (u', None) =>
+                run idna_raw c (decode (u_input (set_input u' i))) (option_map clone baseUrl) None
+                  (fuel_of (length (decode (u_input (set_input u' i)))))
+                  (mk SchemeStart (-1)%Z false [] false false false (set_input u' i))
+            end
+       else run idna_raw c (decode (u_input u0)) (option_map clone baseUrl) None
+              (fuel_of (length (decode (u_input u0)))) (mk SchemeStart (-1)%Z false [] false false false u0)) = RUrl u ->
+      Inv c u).
+    { intros u0 i changed Hbl HK. destruct changed.
+      - pose proof (blank_handleError c u0 InvalidURLUnit false Hbl) as Hbl'.
+        destruct (handleError c u0 InvalidURLUnit false) as [u' [e|]]; [discriminate HK|]. cbn [fst] in Hbl'.
+        eapply (run_Inv idna_raw HH3 c Hc _ _ Hb'); [| |exact HK]; [apply MInv_initial; exact Hbl'|reflexivity].
+      - eapply (run_Inv idna_raw HH3 c Hc _ _ Hb'); [| |exact HK]; [apply MInv_initial; exact Hbl|reflexivity]. }
+    destruct (trim_c0space s) as [i changed]. destruct changed.
+    - pose proof (blank_handleError c (empty_url s) InvalidURLUnit false (blank_empty s)) as Hbl'.
+      destruct (handleError c (empty_url s) InvalidURLUnit false) as [u' [e|]]; [discriminate H|]. cbn [fst] in Hbl'.
+      match type of H with (match ?X with (_, _) => _ end) = _ => destruct X as [i2 ch2] eqn:EX end.
+      apply (K (set_input u' i) i2 ch2); [exact Hbl'|exact H].
+    - match type of H with (match ?X with (_, _) => _ end) = _ => destruct X as [i2 ch2] eqn:EX end.
+      apply (K (empty_url s) i2 ch2); [apply blank_empty|exact H].
+  Qed.
+
+  Theorem Parse_Inv : forall s u, Parse idna_raw c s = PUrl u -> Inv c u.
+  Proof.
+    intros s u H. unfold Parse in H.
+    destruct (BasicParser idna_raw c s None None None) as [u'| | | |] eqn:E; try discriminate H.
+    cbn [to_pres] in H. injection H as <-. apply (BasicParser_Inv s None u'); [intros b Eb; discriminate Eb|exact E].
+  Qed.
+
+  Theorem UrlParse_Inv : forall b ref u, Inv c b -> UrlParse idna_raw c b ref = PUrl u -> Inv c u.
+  Proof.
+    intros b ref u Hb H. unfold UrlParse in H.
+    destruct (BasicParser idna_raw c ref (Some b) None None) as [u'| | | |] eqn:E; try discriminate H.
+    cbn [to_pres] in H. injection H as <-. apply (BasicParser_Inv ref (Some b) u'); [|exact E].
+    intros b' Eb. injection Eb as <-. exact Hb.
+  Qed.
+
+  Theorem ParseRef_Inv : forall raw ref u, ParseRef idna_raw c raw ref = PUrl u -> Inv c u.
+  Proof.
+    intros raw ref u H. unfold ParseRef in H. destruct raw as [|x raw]; [apply (Parse_Inv ref u H)|].
+    destruct (Parse idna_raw c (x :: raw)) as [b| | | |] eqn:E; try discriminate H.
+    apply (UrlParse_Inv b ref u); [apply (Parse_Inv _ _ E)|exact H].
+  Qed.
+
+  Lemma cfg_okm_ok : cfg_ok c = true.
+  Proof. apply (cfg_okm_parts c Hc). Qed.
+
+  (* C04 and C19 for every URL that parsing (with or without a base) returns *)
+  Theorem Parse_obs : forall s u, Parse idna_raw c s = PUrl u ->
+    inv_obs c (obs_url c u) = [] /\ acc_obs c (obs_url c u) = [].
+  Proof.
+    intros s u H. pose proof (Parse_Inv s u H) as Hi.
+    split; [apply Inv_inv_obs|apply Inv_acc_obs]; try exact cfg_okm_ok; exact Hi.
+  Qed.
+
+  Theorem ParseRef_obs : forall raw ref u, ParseRef idna_raw c raw ref = PUrl u ->
+    inv_obs c (obs_url c u) = [] /\ acc_obs c (obs_url c u) = [].
+  Proof.
+    intros raw ref u H. pose proof (ParseRef_Inv raw ref u H) as Hi.
+    split; [apply Inv_inv_obs|apply Inv_acc_obs]; try exact cfg_okm_ok; exact Hi.
+  Qed.
+End ParseInv.
+Print Assumptions run_Inv.
+Print Assumptions Parse_Inv.
+Print Assumptions UrlParse_Inv.
+Print Assumptions ParseRef_obs.
+
+(* the premises hold: default configuration, toy oracle, a base and a reference *)
+Example parse_example :
+  exists u, ParseRef idna_toy default_cfg ex_input [46;46;47;99;63;120] = PUrl u /\ Inv default_cfg u.
+Proof.
+  eexists. split; [vm_compute; reflexivity|].
+  apply inv_b_sound. vm_compute. reflexivity.
+Qed.
+
+(* ================================================================== *)
+(* Part D  the parser under a state override: the remaining setters     *)
+(* ================================================================== *)
+
+Lemma Inv_set_host : forall c u h, Inv c u -> u_opaque u = false ->
+  host_ok (IsSpecialScheme c u) h = true -> forallb printable h = true ->
+  (h = [] -> u_username u = [] /\ u_password u = [] /\ u_port u = None /\
+             (IsSpecialScheme c u = true -> str_eqb (u_scheme u) s_file = true)) ->
+  Inv c (set_host u (Some h)).
+Proof.
+  intros c u h [H1 H2 H3 H4 H5 H6 H7 H8 H9 H10 H11 H12] Ho Hh1 Hh2 Hnil.
+  constructor; fieldsx; try assumption.
+  - intro E. congruence.
+  - intro Hs. destruct (H4 Hs) as [S1 [S2 _]]. split; [exact S1|]. split; [exact S2|].
+    exists h. split; [reflexivity|]. destruct h as [|x h]; [|right; discriminate].
+    left. apply (Hnil eq_refl). exact Hs.
+  - intros [E|[E|E]]; [discriminate E| |apply H5; right; right; exact E].
+    injection E as E. destruct (Hnil E) as [A [B [C _]]]. auto.
+  - intros E. discriminate E.
+  - intros h' E. injection E as <-. auto.
+Qed.
+
+Lemma Inv_set_port_some : forall c u n, Inv c u -> (exists x h, u_host u = Some (x :: h)) ->
+  str_eqb (u_scheme u) s_file = false -> n <= 65535 ->
+  getSpecialScheme c (u_scheme u) <> Some (itoa n) ->
+  Inv c (set_port u (Some (itoa n)) n).
+Proof.
+  intros c u n [H1 H2 H3 H4 H5 H6 H7 H8 H9 H10 H11 H12] [x [h Hh]] Hf Hn Hd.
+  constructor; fieldsx; try assumption.
+  - intros [E|[E|E]]; congruence.
+  - intros p' E. injection E as <-. rewrite itoa_val. split; [apply itoa_canonical|].
+    split; [clear - Hn; lia|]. split; [reflexivity|exact Hd].
+Qed.
+
+Lemma Inv_clean_port : forall c u n, Inv c u -> (exists x h, u_host u = Some (x :: h)) ->
+  str_eqb (u_scheme u) s_file = false -> n <= 65535 ->
+  Inv c (cleanDefaultPort c (set_port u (Some (itoa n)) n)).
+Proof.
+  intros c u n Hi Hh Hf Hn. unfold cleanDefaultPort. fieldsx.
+  destruct (getSpecialScheme c (u_scheme u)) as [dp|] eqn:Ed.
+  - destruct (str_eqb dp (itoa n)) eqn:E.
+    + apply (Inv_ext c (set_port u None 0)); [repeat split|]. apply Inv_set_port_none. exact Hi.
+    + apply Inv_set_port_some; try assumption. rewrite Ed. intro X. injection X as ->.
+      rewrite str_eqb_refl in E. discriminate E.
+  - apply Inv_set_port_some; try assumption. rewrite Ed. discriminate.
+Qed.
+
+(* changing the scheme between two special or two non-special schemes *)
+Lemma Inv_set_scheme_aux : forall c u s (po : option str) d, Inv c u -> scheme_ok s = true ->
+  isSpecialScheme c s = IsSpecialScheme c u ->
+  (str_eqb s s_file = true -> u_username u = [] /\ u_password u = [] /\ u_port u = None) ->
+  (str_eqb (u_scheme u) s_file = true -> exists x h, u_host u = Some (x :: h)) ->
+  (po = None \/ (po = u_port u /\ d = u_decodedPort u /\ forall p, po = Some p -> getSpecialScheme c s <> Some p)) ->
+  Inv c (set_scheme (set_port u po d) s).
+Proof.
+  intros c u s po d [H1 H2 H3 H4 H5 H6 H7 H8 H9 H10 H11 H12] Hs Hsp Hfile1 Hfile2 Hpo.
+  unfold IsSpecialScheme in *.
+  constructor; unfold IsSpecialScheme, qset, fset in *; fieldsx; rewrite ?Hsp.
+  - exact Hs.
+  - exact H2.
+  - exact H3.
+  - intro E. destruct (H4 E) as [S1 [S2 [h [Hh S3]]]]. split; [exact S1|]. split; [exact S2|].
+    exists h. split; [exact Hh|]. right. destruct S3 as [S3|S3]; [|exact S3].
+    destruct (Hfile2 S3) as [x [h' E']]. rewrite Hh in E'. injection E' as ->. discriminate.
+  - intros E.
+    assert (X : u_username u = [] /\ u_password u = [] /\ u_port u = None).
+    { destruct E as [E|[E|E]]; [apply H5; auto|apply H5; auto|apply Hfile1; exact E]. }
+    destruct X as [A [B C]]. split; [exact A|]. split; [exact B|].
+    destruct Hpo as [->|[-> _]]; [reflexivity|exact C].
+  - exact H6.
+  - intros p E. destruct Hpo as [->|[-> [-> Hd]]]; [discriminate E|].
+    destruct (H7 p E) as [P1 [P2 [P3 _]]]. split; [exact P1|]. split; [exact P2|]. split; [exact P3|].
+    apply Hd. exact E.
+  - exact H8.
+  - exact H9.
+  - exact H10.
+  - exact H11.
+  - exact H12.
+Qed.
+
+Lemma Inv_set_scheme : forall c u s, Inv c u -> scheme_ok s = true ->
+  isSpecialScheme c s = IsSpecialScheme c u ->
+  (str_eqb s s_file = true -> u_username u = [] /\ u_password u = [] /\ u_port u = None) ->
+  (str_eqb (u_scheme u) s_file = true -> exists x h, u_host u = Some (x :: h)) ->
+  Inv c (cleanDefaultPort c (set_scheme u s)).
+Proof.
+  intros c u s Hi Hs Hsp Hf1 Hf2.
+  pose proof (Inv_set_scheme_aux c u s None 0 Hi Hs Hsp Hf1 Hf2 (or_introl eq_refl)) as Hnone.
+  assert (Hkeep : (forall p, u_port u = Some p -> getSpecialScheme c s <> Some p) -> Inv c (set_scheme u s)).
+  { intro Hd. apply (Inv_ext c (set_scheme (set_port u (u_port u) (u_decodedPort u)) s)); [repeat split|].
+    apply Inv_set_scheme_aux; try assumption. right. auto. }
+  unfold cleanDefaultPort. fieldsx. destruct (getSpecialScheme c s) as [dp|] eqn:Ed.
+  - destruct (u_port u) as [p|] eqn:Hp.
+    + destruct (str_eqb dp p) eqn:E.
+      * apply (Inv_ext c (set_scheme (set_port u None 0) s)); [repeat split|exact Hnone].
+      * apply Hkeep. intros p' E' X. injection E' as <-. injection X as ->. rewrite str_eqb_refl in E. discriminate E.
+    + apply (Inv_ext c (set_scheme (set_port u None 0) s)); [repeat split|exact Hnone].
+  - apply Hkeep. intros p' _. discriminate.
+Qed.
+
+(* ------------------------------------------------------------------ *)
+(* the host parsers change nothing but the recorded errors, whatever they return *)
+
+Definition res_url {A} (r : res A) : url := match r with Ok u _ => u | Er u _ => u end.
+
+Lemma herr_only : forall A c u t f (k : url -> res A),
+  (forall u1, only_verrs u1 (res_url (k u1))) -> only_verrs u (res_url (herr c u t f k)).
+Proof.
+  intros A c u t f k H. unfold herr. pose proof (handleError_only c u t f) as Ho.
+  destruct (handleError c u t f) as [u1 [e|]]; cbn [fst] in Ho; [exact Ho|].
+  eapply only_verrs_trans; [exact Ho|apply H].
+Qed.
+
+Lemma ipv4_numbers_only : forall c parts u acc, only_verrs u (res_url (ipv4_numbers c u parts acc)).
+Proof.
+  intros c parts. induction parts as [|p rest IH]; intros u acc; [apply only_verrs_refl|].
+  cbn [ipv4_numbers]. pose proof (parseIPv4Number_only c u p) as Hp.
+  destruct (parseIPv4Number c u p) as [u1 [n ve|rg]]; cbn [fst] in Hp.
+  - destruct ve.
+    + eapply only_verrs_trans; [exact Hp|]. apply herr_only. intros u2. apply IH.
+    + eapply only_verrs_trans; [exact Hp|apply IH].
+  - eapply only_verrs_trans; [exact Hp|]. apply herr_only. intros u2. apply IH.
+Qed.
+
+Lemma ipv4_range_warn_only : forall c ns u k,
+  (forall u1, only_verrs u1 (res_url (k u1))) -> only_verrs u (res_url (ipv4_range_warn c u ns k)).
+Proof.
+  intros c ns. induction ns as [|n rest IH]; intros u k H; [apply H|].
+  cbn [ipv4_range_warn]. destruct (255 <? n).
+  - apply herr_only. intros u1. apply IH. exact H.
+  - apply IH. exact H.
+Qed.
+
+Lemma v4_after_empty_only : forall c u parts, only_verrs u (res_url (v4_after_empty c u parts)).
+Proof.
+  intros c u parts. unfold v4_after_empty.
+  assert (K : forall u0, only_verrs u0 (res_url
+            match ipv4_numbers c u0 parts [] with
+            | Er u e => Er u e
+            | Ok u numbers =>
+                ipv4_range_warn c u numbers (fun u =>
+                  let init := drop_last numbers in
+                  if existsb (fun n => 255 <? n) init then herr c u IPv4OutOfRangePart true (fun u => Ok u [])
+                  else match last_opt numbers with
+                       | None => Ok u []
+                       | Some lastn =>
+                           if 256 ^ (5 - N.of_nat (length numbers)) <=? lastn
+                           then herr c u IPv4OutOfRangePart true (fun u => Ok u [])
+                           else Ok u (IPv4String (lastn + ipv4_sum init 0))
+                       end)
+            end)).
+  { intro u0. pose proof (ipv4_numbers_only c parts u0 []) as H1.
+    destruct (ipv4_numbers c u0 parts []) as [u2 numbers|u2 e]; cbn [res_url] in H1 |- *; [|exact H1].
+    eapply only_verrs_trans; [exact H1|]. apply ipv4_range_warn_only. intro u3. cbv zeta.
+    destruct (existsb (fun n => 255 <? n) (drop_last numbers)).
+    - apply herr_only. intro u4. apply only_verrs_refl.
+    - destruct (last_opt numbers) as [lastn|]; [|apply only_verrs_refl].
+      destruct (256 ^ (5 - N.of_nat (length numbers)) <=? lastn); [|apply only_verrs_refl].
+      apply herr_only. intro u4. apply only_verrs_refl. }
+  destruct (4 <? len parts)%Z; [apply herr_only; exact K|apply K].
+Qed.
+
+Lemma parseIPv4_only : forall c u input, only_verrs u (res_url (parseIPv4 c u input)).
+Proof.
+  intros c u input. rewrite parseIPv4_eq. cbv zeta.
+  destruct (last_opt (split 46 input)) as [[|x l]|]; try apply v4_after_empty_only.
+  apply herr_only. intro u1. apply v4_after_empty_only.
+Qed.
+
+Lemma parseIPv6_only : forall c u input, only_verrs u (res_url (parseIPv6 c u input)).
+Proof.
+  intros c u input. unfold parseIPv6. destruct (ipv6_parse (runes input)); [apply only_verrs_refl|].
+  apply herr_only. intro u1. apply only_verrs_refl.
+Qed.
+
+Lemma opaque_loop_only : forall c input l u out, only_verrs u (res_url (opaque_loop c u input l out)).
+Proof.
+  intros c input l. induction l as [|ch rest IH]; intros u out; [apply only_verrs_refl|].
+  cbn [opaque_loop].
+  assert (K1 : forall u0, only_verrs u0 (res_url
+      ((if (ch =? 37) && invalid_pct (ch :: rest)
+        then (fun k => herr c u0 InvalidURLUnit false k) else (fun k => k u0))
+       (fun u => opaque_loop c u input rest (out ++ percentEncodeRune c ch (Some pes_C0)))))).
+  { intro u0. destruct ((ch =? 37) && invalid_pct (ch :: rest)); [apply herr_only; intro; apply IH|apply IH]. }
+  assert (K2 : forall u0, only_verrs u0 (res_url
+      ((if negb (isURLCodePoint ch) && negb (ch =? 37)
+        then (fun k => herr c u0 InvalidURLUnit false k) else (fun k => k u0))
+       (fun u =>
+         (if (ch =? 37) && invalid_pct (ch :: rest)
+          then (fun k => herr c u InvalidURLUnit false k) else (fun k => k u))
+         (fun u => opaque_loop c u input rest (out ++ percentEncodeRune c ch (Some pes_C0))))))).
+  { intro u0. destruct (negb (isURLCodePoint ch) && negb (ch =? 37)); [apply herr_only; exact K1|apply K1]. }
+  destruct (isForbiddenHost ch); [|apply K2].
+  destruct (c_lax c); [apply only_verrs_refl|]. apply herr_only. exact K2.
+Qed.
+
+Lemma parseHost_only : forall idna_raw c u input ns, only_verrs u (res_url (parseHost idna_raw c u input ns)).
+Proof.
+  intros idna_raw c u input ns. rewrite parseHost_eq.
+  destruct (apply_hostfun (c_pre c) input) as [|x r]; [apply only_verrs_refl|].
+  destruct (x =? 91).
+  - unfold ph_v6. destruct (negb (has_suffix [93] (x :: r))); [apply herr_only; intro|]; apply parseIPv6_only.
+  - destruct ns; [apply opaque_loop_only|]. unfold ph_domain. cbv zeta.
+    set (domain := DecodePercentEncoded c (x :: r)).
+    assert (KC : forall a u0, only_verrs u0 (res_url
+               match endsInANumber c u0 a with
+               | (u, true) => parseIPv4 c u a
+               | (u, false) => Ok u (apply_hostfun (c_post c) a)
+               end)).
+    { intros a u0. pose proof (endsInANumber_only c u0 a) as H.
+      destruct (endsInANumber c u0 a) as [u1 b]. cbn [fst] in H. destruct b.
+      - eapply only_verrs_trans; [exact H|apply parseIPv4_only].
+      - exact H. }
+    assert (KV : forall u0, only_verrs u0 (res_url
+               match ToASCII idna_raw c domain with
+               | None => if c_lax c then Ok u0 domain else herr c u0 DomainToASCII true (fun u => Ok u [])
+               | Some asciiDomain =>
+                   if existsb isForbiddenDomain (runes asciiDomain)
+                   then if c_lax c then Ok u0 (PercentEncodeString c asciiDomain pes_Host)
+                        else herr c u0 DomainInvalidCodePoint true (fun u =>
+                               match endsInANumber c u asciiDomain with
+                               | (u, true) => parseIPv4 c u asciiDomain
+                               | (u, false) => Ok u (apply_hostfun (c_post c) asciiDomain)
+                               end)
+                   else match endsInANumber c u0 asciiDomain with
+                        | (u, true) => parseIPv4 c u asciiDomain
+                        | (u, false) => Ok u (apply_hostfun (c_post c) asciiDomain)
+                        end
+               end)).
+    { intro u0. destruct (ToASCII idna_raw c domain) as [a|].
+      - destruct (existsb isForbiddenDomain (runes a)); [|apply KC].
+        destruct (c_lax c); [apply only_verrs_refl|]. apply herr_only. intro u1. apply KC.
+      - destruct (c_lax c); [apply only_verrs_refl|]. apply herr_only. intro u1. apply only_verrs_refl. }
+    destruct (negb (valid_utf8 domain)); [|apply KV].
+    destruct (c_lax c); [apply only_verrs_refl|]. apply herr_only. exact KV.
+Qed.
+
+Section MachineO.
+  Variable idna_raw : str -> str * bool.
+  Hypothesis HH3 : H3 idna_raw.
+  Variable c : cfg.
+  Hypothesis Hc : cfg_okm c = true.
+  Hypothesis Hnf : c_fail c = false.
+  Variable inp : list rune.
+  Variable base : option url.
+  Variable ov : state.
+
+  Notation stepO := (step idna_raw c inp base (Some ov)).
+
+  Let Hcok : cfg_ok c = true. Proof. apply (cfg_okm_parts c Hc). Qed.
+  Let Hcl_path : set_closed (c_pathSet c) = true. Proof. apply (cfg_okm_parts c Hc). Qed.
+  Let Hcl_squery : set_closed (c_squerySet c) = true. Proof. apply (cfg_okm_parts c Hc). Qed.
+  Let Hcl_query : set_closed (c_querySet c) = true. Proof. apply (cfg_okm_parts c Hc). Qed.
+  Let Hcl_sfrag : set_closed (c_sfragSet c) = true. Proof. apply (cfg_okm_parts c Hc). Qed.
+  Let Hcl_frag : set_closed (c_fragSet c) = true. Proof. apply (cfg_okm_parts c Hc). Qed.
+  Let Hlax : c_lax c = false. Proof. apply (cfg_okm_parts c Hc). Qed.
+  Let Htrail : c_skipTrailSlash c = false. Proof. apply (cfg_okm_parts c Hc). Qed.
+  Let Hpre : c_pre c = HF_none. Proof. apply (cfg_okm_parts c Hc). Qed.
+  Let Hpost : c_post c = HF_none. Proof. apply (cfg_okm_parts c Hc). Qed.
+  Let Hfile : isSpecialScheme c s_file = true. Proof. apply (cfg_okm_parts c Hc). Qed.
+
+  Definition MInvO (m : mstate) : Prop :=
+    let u := m_url m in
+    let buf := m_buf m in
+    match m_state m with
+    | SchemeStart => Inv c u /\ buf = []
+    | Scheme => Inv c u /\ scheme_ok buf = true
+    | HostSt | HostnameSt => Inv c u /\ u_opaque u = false
+    | FileHost => Inv c u /\ u_opaque u = false /\ u_scheme u = s_file
+    | PortSt =>
+        Inv c u /\ (exists x h, u_host u = Some (x :: h)) /\ str_eqb (u_scheme u) s_file = false /\
+        forallb is_digit buf = true
+    | PathStart => InvP c u /\ buf = [] /\ u_path u = []
+    | PathSt => InvP c u /\ seg_ok c buf = true
+    | QuerySt => Inv c u /\ none_in (qset c u) buf = true
+    | FragmentSt => Inv c u /\ none_in (fset c u) buf = true
+    | _ => False
+    end.
+
+  Definition MInvWO (m : mstate) : Prop := if m_eof m then Inv c (m_url m) else MInvO m.
+
+  (* a setter keeps the record whatever the parser returns *)
+  Definition PostO (o : outcome) : Prop :=
+    match o with
+    | Cont m' => MInvWO m'
+    | RetUrl u => Inv c u
+    | RetErr u _ => Inv c u
+    | RetNilNil u => Inv c u
+    | Panic => True
+    end.
+
+  Lemma mherr_postO : forall u t k,
+    (forall v, PostO (k (set_verrs u v))) -> PostO (mherr c u t false k).
+  Proof.
+    intros u t k H. unfold mherr, handleError. rewrite Hnf. cbn [orb].
+    destruct (c_report c); [apply H|]. rewrite <- (set_verrs_id u). apply H.
+  Qed.
+
+  Lemma mherr_fatalO : forall u t k, Inv c u -> PostO (mherr c u t true k).
+  Proof.
+    intros u t k H. unfold mherr, handleError. cbn [orb].
+    destruct (c_report c); cbn [PostO]; [apply Inv_set_verrs|]; exact H.
+  Qed.
+
+  Lemma uuc_postO : forall (A inv : bool) u (k1 k2 : url -> outcome),
+    (forall v, PostO (k1 (set_verrs u v))) -> (forall v, PostO (k2 (set_verrs u v))) ->
+    PostO ((if A then (fun k' => mherr c u InvalidURLUnit false k') else (fun k' => k' u))
+            (fun u => if inv then mherr c u InvalidURLUnit false k1 else k2 u)).
+  Proof.
+    intros A inv u k1 k2 H1 H2.
+    assert (H2' : PostO (k2 u)) by (rewrite <- (set_verrs_id u); apply H2).
+    destruct A.
+    - apply mherr_postO. intro v. destruct inv; [|apply H2].
+      apply mherr_postO. intro v'. rewrite set_verrs_twice. apply H1.
+    - destruct inv; [|apply H2']. apply mherr_postO. intro v. apply H1.
+  Qed.
+
+  Ltac start_stateO :=
+    intros [st ptr eof buf atF brF pwF u] Hst Hm He; cbn [m_state m_eof] in Hst, He; subst st eof;
+    unfold MInvO in Hm; cbn [m_state m_url m_buf m_ptr m_at] in Hm;
+    unfold step; cbn [m_state m_ptr m_eof m_buf m_at m_br m_pw m_url overridden is_some negb andb orb];
+    set (p := (ptr + 1)%Z);
+    set (r := if (n_inp inp <=? p)%Z then rune_error else cp_at inp p);
+    set (eof := if (n_inp inp <=? p)%Z then true else false);
+    assert (Heofr : eof = true -> r = rune_error)
+      by (unfold eof, r; destruct (n_inp inp <=? p)%Z; [reflexivity|discriminate]).
+  Ltac finO := unfold PostO, MInvWO; cbn [m_eof mk]; unfold MInvO; cbn [m_state m_url m_buf m_ptr m_at mk].
+
+  Lemma stepO_SchemeStart : forall m, m_state m = SchemeStart -> MInvO m -> m_eof m = false -> PostO (stepO m).
+  Proof.
+    start_stateO. destruct Hm as [Hi ->].
+    destruct (isAlpha r) eqn:Ha.
+    - assert (Hne : eof = false) by (destruct eof; [rewrite (Heofr eq_refl) in Ha; discriminate Ha|reflexivity]).
+      rewrite Hne. finO. split; [exact Hi|].
+      destruct (isAlpha_facts r Ha) as [A1 A2].
+      assert (ascii_lower r < 128) by (clear - A1; unfold ascii_lower; destruct (is_upper r) eqn:E; unfold is_upper in E; lia).
+      rewrite utf8_enc_ascii by assumption. cbn [app scheme_ok forallb]. rewrite A2. reflexivity.
+    - apply mherr_fatalO. exact Hi.
+  Qed.
+
+  Lemma stepO_Scheme : forall m, m_state m = Scheme -> MInvO m -> m_eof m = false -> PostO (stepO m).
+  Proof.
+    start_stateO. destruct Hm as [Hi Hbuf].
+    destruct (isAlnum r || (r =? 43) || (r =? 45) || (r =? 46)) eqn:Hsc.
+    - assert (Hne : eof = false) by (destruct eof; [rewrite (Heofr eq_refl) in Hsc; discriminate Hsc|reflexivity]).
+      rewrite Hne. finO. split; [exact Hi|]. destruct (scheme_char_facts r Hsc) as [A1 A2].
+      assert (ascii_lower r < 128) by (clear - A1; unfold ascii_lower; destruct (is_upper r) eqn:E; unfold is_upper in E; lia).
+      rewrite utf8_enc_ascii by assumption. apply scheme_ok_snoc; assumption.
+    - destruct (r =? 58); [|apply mherr_fatalO; exact Hi].
+      match goal with |- PostO (if ?b then _ else _) => destruct b eqn:Early end; [exact Hi|].
+      cbn [PostO].
+      apply orb_false_iff in Early. destruct Early as [Early E4].
+      apply orb_false_iff in Early. destruct Early as [Early E3].
+      apply orb_false_iff in Early. destruct Early as [E1 E2].
+      apply Inv_set_scheme; try assumption.
+      + unfold IsSpecialScheme. destruct (isSpecialScheme c (u_scheme u)), (isSpecialScheme c buf);
+          try reflexivity; discriminate.
+      + intro Ef. rewrite Ef, andb_true_r in E3.
+        apply orb_false_iff in E3. destruct E3 as [E3 E3c]. apply orb_false_iff in E3. destruct E3 as [E3a E3b].
+        apply negb_false_iff in E3a, E3b. apply is_nil_true in E3a, E3b.
+        destruct (u_port u); [discriminate E3c|]. auto.
+      + intro Ef. rewrite Ef in E4. cbn [andb] in E4.
+        destruct (u_host u) as [[|x h]|]; try discriminate E4. exists x, h. reflexivity.
+  Qed.
+
+  Lemma stepO_QuerySt : forall m, m_state m = QuerySt -> MInvO m -> m_eof m = false -> PostO (stepO m).
+  Proof.
+    start_stateO. destruct Hm as [Hi Hbuf].
+    destruct eof eqn:Heof; cbn [negb].
+    - finO. apply Inv_set_query_some; assumption.
+    - fieldsx_in Hbuf. apply uuc_postO; intro v; finO; fieldsx;
+      (split; [apply Inv_set_verrs; exact Hi|]);
+      rewrite none_in_app;
+      (destruct (isSpecialScheme c (u_scheme u)); rewrite Hbuf; cbn [andb]; apply enc_rune_none_in; assumption).
+  Qed.
+
+  Lemma stepO_FragmentSt : forall m, m_state m = FragmentSt -> MInvO m -> m_eof m = false -> PostO (stepO m).
+  Proof.
+    start_stateO. destruct Hm as [Hi Hbuf].
+    destruct eof eqn:Heof; cbn [negb].
+    - finO. apply Inv_set_fragment_some; assumption.
+    - fieldsx_in Hbuf. apply uuc_postO; intro v; finO; fieldsx;
+      (split; [apply Inv_set_verrs; exact Hi|]);
+      rewrite none_in_app;
+      (destruct (isSpecialScheme c (u_scheme u)); rewrite Hbuf; cbn [andb]; apply enc_rune_none_in; assumption).
+  Qed.
+
+  Lemma stepO_PortSt : forall m, m_state m = PortSt -> MInvO m -> m_eof m = false -> PostO (stepO m).
+  Proof.
+    start_stateO. destruct Hm as [Hi [Hh [Hf Hbuf]]].
+    destruct (isDigit r) eqn:Hd.
+    - assert (Hne : eof = false) by (destruct eof; [rewrite (Heofr eq_refl) in Hd; discriminate Hd|reflexivity]).
+      rewrite Hne. finO. do 3 (split; [assumption|]).
+      destruct (isDigit_facts r Hd) as [D1 D2]. rewrite utf8_enc_ascii by exact D1.
+      rewrite forallb_app, Hbuf. cbn [forallb]. rewrite D2. reflexivity.
+    - rewrite orb_true_r. destruct (negb (is_nil buf)).
+      + destruct (65535 <? digits_val 10 buf) eqn:Hbig; [apply mherr_fatalO; exact Hi|].
+        assert (Hn : digits_val 10 buf <= 65535) by (clear - Hbig; lia).
+        cbn [PostO]. apply Inv_clean_port; assumption.
+      + apply mherr_fatalO. exact Hi.
+  Qed.
+
+  Lemma stepO_PathStart : forall m, m_state m = PathStart -> MInvO m -> m_eof m = false -> PostO (stepO m).
+  Proof.
+    start_stateO. destruct Hm as [Hp [-> Hpath]].
+    rewrite Htrail. cbn [negb]. rewrite andb_true_r.
+    destruct (IsSpecialScheme c u) eqn:Hs.
+    - assert (K : forall v, PostO (if negb (r =? 47) && negb (r =? 92)
+                                   then Cont (mk PathSt (p - 1) false [] atF brF pwF (set_verrs u v))
+                                   else Cont (mk PathSt p eof [] atF brF pwF (set_verrs u v)))).
+      { intro v. destruct (negb (r =? 47) && negb (r =? 92)) eqn:E.
+        - finO. split; [apply InvP_set_verrs; exact Hp|reflexivity].
+        - assert (Hne : eof = false) by (destruct eof; [rewrite (Heofr eq_refl) in E; discriminate E|reflexivity]).
+          rewrite Hne. finO. split; [apply InvP_set_verrs; exact Hp|reflexivity]. }
+      destruct (r =? 92).
+      + apply mherr_postO. exact K.
+      + rewrite <- (set_verrs_id u). apply K.
+    - destruct eof eqn:Heof; cbn [negb].
+      + destruct (negb (is_some (u_host u))) eqn:Hh.
+        * finO. apply InvP_Inv; [apply InvP_addSegment; [exact Hp|reflexivity]|]. left.
+          unfold addSegment. fieldsx. destruct (u_path u); discriminate.
+        * finO. apply InvP_Inv; [exact Hp|]. right. split; [exact Hs|].
+          destruct (u_host u); [discriminate|discriminate Hh].
+      + destruct (negb (r =? 47)); finO; (split; [exact Hp|reflexivity]).
+  Qed.
+
+  Lemma stepO_PathSt : forall m, m_state m = PathSt -> MInvO m -> m_eof m = false -> PostO (stepO m).
+  Proof.
+    start_stateO. destruct Hm as [Hp Hbuf]. rewrite orb_false_r.
+    destruct (eof || (r =? 47) || isSpecialSchemeAndBackslash c u r) eqn:Hterm.
+    - change (PostO ((if isSpecialSchemeAndBackslash c u r
+                     then (fun k => mherr c u InvalidReverseSolidus false k) else (fun k => k u))
+                    (fun u0 => path_done p eof atF brF pwF r
+                                 (path_upd c u0 buf ((r =? 47) || isSpecialSchemeAndBackslash c u0 r))))).
+      assert (K : forall v, PostO (path_done p eof atF brF pwF r
+                   (path_upd c (set_verrs u v) buf ((r =? 47) || isSpecialSchemeAndBackslash c (set_verrs u v) r)))).
+      { intro v. set (sl := (r =? 47) || isSpecialSchemeAndBackslash c (set_verrs u v) r).
+        destruct (path_upd_ok c Hc (set_verrs u v) buf sl (InvP_set_verrs c u v Hp) Hbuf) as [K1 K2].
+        assert (Hsl : (r =? 47) = false -> (r =? 92) = false -> sl = false).
+        { intros E1 E2. unfold sl, isSpecialSchemeAndBackslash. rewrite E1, E2, andb_false_r. reflexivity. }
+        unfold path_done. destruct (r =? 63) eqn:H63.
+        { assert (Hne : eof = false).
+          { destruct eof; [|reflexivity]. rewrite (Heofr eq_refl) in H63. discriminate H63. }
+          rewrite Hne. finO. split; [|reflexivity]. apply Inv_set_query_some; [|reflexivity].
+          apply InvP_Inv; [exact K1|]. left. apply K2. apply Hsl.
+          - apply N.eqb_eq in H63. rewrite H63. reflexivity.
+          - apply N.eqb_eq in H63. rewrite H63. reflexivity. }
+        destruct (r =? 35) eqn:H35.
+        { assert (Hne : eof = false).
+          { destruct eof; [|reflexivity]. rewrite (Heofr eq_refl) in H35. discriminate H35. }
+          rewrite Hne. finO. split; [|reflexivity]. apply Inv_set_fragment_some; [|reflexivity].
+          apply InvP_Inv; [exact K1|]. left. apply K2. apply Hsl.
+          - apply N.eqb_eq in H35. rewrite H35. reflexivity.
+          - apply N.eqb_eq in H35. rewrite H35. reflexivity. }
+        destruct eof eqn:Heof.
+        - finO. apply InvP_Inv; [exact K1|]. left. apply K2. apply Hsl; rewrite (Heofr eq_refl); reflexivity.
+        - finO. split; [exact K1|reflexivity]. }
+      destruct (isSpecialSchemeAndBackslash c u r).
+      + apply mherr_postO. exact K.
+      + rewrite <- (set_verrs_id u). apply K.
+    - apply orb_false_iff in Hterm. destruct Hterm as [Hterm _].
+      apply orb_false_iff in Hterm. destruct Hterm as [Heof H47]. rewrite Heof.
+      assert (Q : forall t, RuneShouldBeEncoded t r = false -> negb (r =? 47) = true)
+        by (intros t _; rewrite H47; reflexivity).
+      apply uuc_postO; intro v; finO; (split; [apply InvP_set_verrs; exact Hp|]); apply seg_ok_app; try assumption.
+      + apply enc_invalid_none_in. assumption.
+      + apply Q_enc_invalid; [reflexivity|reflexivity|apply Q].
+      + apply enc_rune_none_in. assumption.
+      + apply Q_enc_rune; [reflexivity|reflexivity|apply Q].
+  Qed.
+
+
+
+  Lemma parseHost_err_Inv : forall u buf ns u1 e, Inv c u ->
+    parseHost idna_raw c u buf ns = Er u1 e -> Inv c u1.
+  Proof.
+    intros u buf ns u1 e Hi E. pose proof (parseHost_only idna_raw c u buf ns) as H.
+    rewrite E in H. cbn [res_url] in H. rewrite H. apply Inv_set_verrs. exact Hi.
+  Qed.
+
+  Lemma stepO_Host_gen : forall st0, st0 = HostSt \/ st0 = HostnameSt ->
+    forall m, m_state m = st0 -> MInvO m -> m_eof m = false -> PostO (stepO m).
+  Proof.
+    intros st0 Hst0.
+    intros [st ptr eof0 buf atF brF pwF u] Hst Hm He; cbn [m_state m_eof] in Hst, He; subst st eof0.
+    assert (Hm' : Inv c u /\ u_opaque u = false) by (destruct Hst0 as [-> | ->]; exact Hm).
+    clear Hm. destruct Hm' as [Hi Ho].
+    assert (Hgoal : forall (P : outcome -> Prop),
+      P (let p := (ptr + 1)%Z in
+         let eof := if (n_inp inp <=? p)%Z then true else false in
+         let r := if (n_inp inp <=? p)%Z then rune_error else cp_at inp p in
+         if str_eqb (u_scheme u) s_file then Cont (mk FileHost (p - 1) false buf atF brF pwF u)
+         else if (r =? 58) && negb brF then
+           (if is_nil buf then (fun k => mherr c u HostMissing true k) else (fun k => k u))
+           (fun u0 => if match ov with HostnameSt => true | _ => false end then RetUrl u0
+                      else match parseHost idna_raw c u0 buf (negb (IsSpecialScheme c u0)) with
+                           | Ok u1 host => Cont (mk PortSt p eof [] atF brF pwF (set_host u1 (Some host)))
+                           | Er u1 e => RetErr u1 e
+                           end)
+         else if eof || ((r =? 47) || (r =? 63) || (r =? 35) || isSpecialSchemeAndBackslash c u r) then
+           if IsSpecialScheme c u && is_nil buf
+           then mherr c u HostMissing true (fun u' => Cont (mk st0 (p - 1) false buf atF brF pwF u'))
+           else if is_nil buf && (negb (is_nil (u_username u)) || negb (is_nil (u_password u)) || is_some (u_port u))
+           then RetUrl u
+           else match parseHost idna_raw c u buf (negb (IsSpecialScheme c u)) with
+                | Ok u0 host => RetUrl (set_host u0 (Some host))
+                | Er u0 e => RetErr u0 e
+                end
+         else Cont (mk st0 p eof
+                      (buf ++ match rune_at inp p with
+                              | Some (Bad b) => if c_acceptInvalid c then [b] else utf8_enc r
+                              | _ => utf8_enc r end) atF
+                      (if r =? 91 then true else if r =? 93 then false else brF) pwF u)) ->
+      P (stepO {| m_state := st0; m_ptr := ptr; m_eof := false; m_buf := buf; m_at := atF; m_br := brF; m_pw := pwF; m_url := u |})).
+    { intros P HP. destruct Hst0 as [-> | ->]; exact HP. }
+    apply (Hgoal PostO). clear Hgoal. cbv zeta.
+    set (p := (ptr + 1)%Z).
+    set (r := if (n_inp inp <=? p)%Z then rune_error else cp_at inp p).
+    set (eof := if (n_inp inp <=? p)%Z then true else false).
+    assert (Heofr : eof = true -> r = rune_error).
+    { unfold eof, r. destruct (n_inp inp <=? p)%Z; [reflexivity|discriminate]. }
+    destruct (str_eqb (u_scheme u) s_file) eqn:Hf.
+    { finO. apply str_eqb_eq in Hf. auto. }
+    destruct ((r =? 58) && negb brF) eqn:Hcolon.
+    { assert (Hne : eof = false).
+      { destruct eof; [|reflexivity]. rewrite (Heofr eq_refl) in Hcolon. discriminate Hcolon. }
+      rewrite Hne. destruct (is_nil buf) eqn:Hnil; [apply mherr_fatalO; exact Hi|]. apply is_nil_false in Hnil.
+      destruct (match ov with HostnameSt => true | _ => false end); [exact Hi|].
+      destruct (parseHost idna_raw c u buf (negb (IsSpecialScheme c u))) as [u1 host|u1 e] eqn:EP;
+        [|cbn [PostO]; apply (parseHost_err_Inv _ _ _ _ _ Hi EP)].
+      destruct (parseHost_ok idna_raw HH3 c u buf _ u1 host Hlax Hpre Hpost EP) as [O1 [O2 [O3 O4]]].
+      rewrite negb_involutive in O2. specialize (O4 Hnil).
+      rewrite O1. finO. fieldsx. rewrite Hf.
+      split; [|destruct host as [|x h]; [contradiction|]; repeat split; auto; exists x, h; reflexivity].
+      apply (Inv_ext c (set_host u (Some host))); [repeat split|].
+      apply Inv_set_host; try assumption. intro E. contradiction. }
+    destruct (eof || ((r =? 47) || (r =? 63) || (r =? 35) || isSpecialSchemeAndBackslash c u r)) eqn:Hterm.
+    - destruct (IsSpecialScheme c u && is_nil buf) eqn:Hsn; [apply mherr_fatalO; exact Hi|].
+      destruct (is_nil buf && (negb (is_nil (u_username u)) || negb (is_nil (u_password u)) || is_some (u_port u))) eqn:Hkeep;
+        [exact Hi|].
+      destruct (parseHost idna_raw c u buf (negb (IsSpecialScheme c u))) as [u1 host|u1 e] eqn:EP;
+        [|cbn [PostO]; apply (parseHost_err_Inv _ _ _ _ _ Hi EP)].
+      destruct (parseHost_ok idna_raw HH3 c u buf _ u1 host Hlax Hpre Hpost EP) as [O1 [O2 [O3 O4]]].
+      rewrite negb_involutive in O2. cbn [PostO]. rewrite O1.
+      apply (Inv_ext c (set_host u (Some host))); [repeat split|].
+      apply Inv_set_host; try assumption. intro E.
+      assert (Hb : buf = []).
+      { destruct buf as [|b0 b']; [reflexivity|]. exfalso. apply O4; [discriminate|exact E]. }
+      subst buf. cbn [is_nil andb] in Hkeep, Hsn. rewrite andb_true_r in Hsn.
+      apply orb_false_iff in Hkeep. destruct Hkeep as [Hkeep K3]. apply orb_false_iff in Hkeep.
+      destruct Hkeep as [K1 K2]. apply negb_false_iff in K1, K2. apply is_nil_true in K1, K2.
+      destruct (u_port u); [discriminate K3|]. repeat split; auto. intro X. congruence.
+    - assert (Hne : eof = false) by (destruct eof; [discriminate Hterm|reflexivity]).
+      rewrite Hne. unfold PostO, MInvWO. cbn [m_eof mk]. unfold MInvO. cbn [m_state m_url m_buf m_ptr m_at mk].
+      destruct Hst0 as [-> | ->]; auto.
+  Qed.
+
+  Lemma stepO_HostSt : forall m, m_state m = HostSt -> MInvO m -> m_eof m = false -> PostO (stepO m).
+  Proof. apply stepO_Host_gen. left. reflexivity. Qed.
+  Lemma stepO_HostnameSt : forall m, m_state m = HostnameSt -> MInvO m -> m_eof m = false -> PostO (stepO m).
+  Proof. apply stepO_Host_gen. right. reflexivity. Qed.
+
+  Lemma stepO_FileHost : forall m, m_state m = FileHost -> MInvO m -> m_eof m = false -> PostO (stepO m).
+  Proof.
+    start_stateO. destruct Hm as [Hi [Ho Hf]].
+    assert (Hsp : IsSpecialScheme c u = true) by (unfold IsSpecialScheme; rewrite Hf; exact Hfile).
+    destruct (I_nocred _ _ Hi) as [C1 [C2 C3]]; [right; right; rewrite Hf; reflexivity|].
+    assert (Hnil : forall h : str, h = [] -> u_username u = [] /\ u_password u = [] /\ u_port u = None /\
+                   (IsSpecialScheme c u = true -> str_eqb (u_scheme u) s_file = true)).
+    { intros h _. repeat split; auto. intros _. rewrite Hf. reflexivity. }
+    destruct (eof || (r =? 47) || (r =? 92) || (r =? 63) || (r =? 35)) eqn:Hterm.
+    - destruct (is_nil buf) eqn:Hn.
+      { cbn [PostO]. apply Inv_set_host; try assumption; [apply host_ok_nil|reflexivity|apply Hnil]. }
+      rewrite Hsp. cbn [negb].
+      destruct (parseHost idna_raw c u buf false) as [u1 host|u1 e] eqn:EP;
+        [|cbn [PostO]; apply (parseHost_err_Inv _ _ _ _ _ Hi EP)].
+      destruct (parseHost_ok idna_raw HH3 c u buf false u1 host Hlax Hpre Hpost EP) as [O1 [O2 [O3 O4]]].
+      cbn [negb] in O2. cbn [PostO]. rewrite O1.
+      apply (Inv_ext c (set_host u (Some (if str_eqb host s_localhost then [] else host)))); [repeat split|].
+      apply Inv_set_host; try assumption.
+      + rewrite Hsp. destruct (str_eqb host s_localhost); [apply host_ok_nil|exact O2].
+      + destruct (str_eqb host s_localhost); [reflexivity|exact O3].
+      + apply Hnil.
+    - assert (Hne : eof = false) by (destruct eof; [discriminate Hterm|reflexivity]).
+      rewrite Hne. finO. auto.
+  Qed.
+
+  Theorem stepO_MInv : forall m, MInvO m -> m_eof m = false -> PostO (stepO m).
+  Proof.
+    intros m Hm He. destruct (m_state m) eqn:Hst;
+      try (exfalso; unfold MInvO in Hm; rewrite Hst in Hm; exact Hm).
+    - apply stepO_SchemeStart; assumption.
+    - apply stepO_Scheme; assumption.
+    - apply stepO_HostSt; assumption.
+    - apply stepO_HostnameSt; assumption.
+    - apply stepO_FileHost; assumption.
+    - apply stepO_PortSt; assumption.
+    - apply stepO_PathSt; assumption.
+    - apply stepO_PathStart; assumption.
+    - apply stepO_QuerySt; assumption.
+    - apply stepO_FragmentSt; assumption.
+  Qed.
+
+  (* whatever the loop returns under an override, the record it leaves behind satisfies the invariant *)
+  Theorem runO_Inv : forall fuel m u, MInvO m -> m_eof m = false ->
+    after (run idna_raw c inp base (Some ov) fuel m) = Some u -> Inv c u.
+  Proof.
+    induction fuel as [|f IH]; intros m u Hm He H; [discriminate H|].
+    cbn [run] in H. pose proof (stepO_MInv m Hm He) as HP.
+    destruct (stepO m) as [m'|u'|u' e|u'|] eqn:ES; cbn [after] in H; try discriminate H.
+    - unfold PostO, MInvWO in HP. destruct (m_eof m') eqn:He'.
+      + cbn [after] in H. injection H as <-. exact HP.
+      + apply (IH m' u HP He' H).
+    - injection H as <-. exact HP.
+    - injection H as <-. exact HP.
+    - injection H as <-. exact HP.
+  Qed.
+
+End MachineO.
+
+(* ------------------------------------------------------------------ *)
+(* The setters that run the parser                                      *)
+
+Section Setters.
+  Variable idna_raw : str -> str * bool.
+  Hypothesis HH3 : H3 idna_raw.
+  Variable c : cfg.
+  Hypothesis Hc : cfg_okm c = true.
+  Hypothesis Hnf : c_fail c = false.
+
+  (* BasicParser on an existing record, under a state override *)
+  Lemma BP_override_Inv : forall s u0 ov u',
+    (forall u1, same_fields u0 u1 -> MInvO c (mk ov (-1)%Z false [] false false false u1)) ->
+    after (BasicParser idna_raw c s None (Some u0) (Some ov)) = Some u' -> Inv c u'.
+  Proof.
+    intros s u0 ov u' Hinit H. unfold BasicParser in H. cbn [option_map] in H.
+    match type of H with after (match ?X with (_, _) => _ end) = _ => destruct X as [i changed] end.
+    destruct changed.
+    - unfold handleError in H. rewrite Hnf in H. cbn [orb] in H.
+      eapply (runO_Inv idna_raw HH3 c Hc Hnf); [| |exact H]; [|reflexivity].
+      apply Hinit. destruct (c_report c); repeat split.
+    - eapply (runO_Inv idna_raw HH3 c Hc Hnf); [| |exact H]; [|reflexivity].
+      apply Hinit. repeat split.
+  Qed.
+
+  Theorem SetProtocol_Inv : forall u s u', Inv c u -> SetProtocol idna_raw c u s = Some u' -> Inv c u'.
+  Proof.
+    intros u s u' Hi H. unfold SetProtocol in H. eapply BP_override_Inv; [|exact H].
+    intros u1 S. unfold MInvO. cbn [m_state m_url m_buf mk]. split; [apply (Inv_ext c u u1 S Hi)|reflexivity].
+  Qed.
+
+  Lemma same_fields_opaque : forall u u1, same_fields u u1 -> u_opaque u1 = u_opaque u.
+  Proof. intros u u1 [_ [_ [_ [_ [_ [_ [_ [A _]]]]]]]]. symmetry. exact A. Qed.
+
+  Theorem SetHost_Inv : forall u s u', Inv c u -> SetHost idna_raw c u s = Some u' -> Inv c u'.
+  Proof.
+    intros u s u' Hi H. unfold SetHost in H. destruct (u_opaque u) eqn:Ho; [injection H as <-; exact Hi|].
+    eapply BP_override_Inv; [|exact H].
+    intros u1 S. unfold MInvO. cbn [m_state m_url m_buf mk]. split; [apply (Inv_ext c u u1 S Hi)|].
+    rewrite (same_fields_opaque u u1 S). exact Ho.
+  Qed.
+
+  Theorem SetHostname_Inv : forall u s u', Inv c u -> SetHostname idna_raw c u s = Some u' -> Inv c u'.
+  Proof.
+    intros u s u' Hi H. unfold SetHostname in H. destruct (u_opaque u) eqn:Ho; [injection H as <-; exact Hi|].
+    eapply BP_override_Inv; [|exact H].
+    intros u1 S. unfold MInvO. cbn [m_state m_url m_buf mk]. split; [apply (Inv_ext c u u1 S Hi)|].
+    rewrite (same_fields_opaque u u1 S). exact Ho.
+  Qed.
+
+  Theorem SetPort_Inv : forall u s u', Inv c u -> SetPort idna_raw c u s = Some u' -> Inv c u'.
+  Proof.
+    intros u s u' Hi H. destruct s as [|x s]; [apply (SetPort_empty_Inv idna_raw c u u' Hi H)|].
+    unfold SetPort in H. destruct (no_host_or_file u) eqn:Hn; [injection H as <-; exact Hi|].
+    destruct (no_host_or_file_false u Hn) as [[y [h Hh]] Hf].
+    eapply BP_override_Inv; [|exact H].
+    intros u1 S. unfold MInvO. cbn [m_state m_url m_buf mk]. split; [apply (Inv_ext c u u1 S Hi)|].
+    destruct S as [A1 [_ [_ [A4 _]]]]. rewrite <- A1, <- A4. split; [exists y, h; exact Hh|]. auto.
+  Qed.
+
+  Theorem SetPathname_Inv : forall u s u', Inv c u -> SetPathname idna_raw c u s = Some u' -> Inv c u'.
+  Proof.
+    intros u s u' Hi H. unfold SetPathname in H. destruct (u_opaque u) eqn:Ho; [injection H as <-; exact Hi|].
+    eapply BP_override_Inv; [|exact H].
+    intros u1 S. unfold MInvO. cbn [m_state m_url m_buf mk].
+    split; [|split; [reflexivity|destruct S as [_ [_ [_ [_ [_ [_ [A7 _]]]]]]]; rewrite <- A7; reflexivity]].
+    apply (InvP_ext c (set_path u [] false) u1 S). apply InvP_set_path; [|reflexivity].
+    apply Inv_InvP; assumption.
+  Qed.
+
+  Theorem SetSearch_Inv : forall u s u', Inv c u -> SetSearch idna_raw c u s = Some u' -> Inv c u'.
+  Proof.
+    intros u s u' Hi H. destruct s as [|x s]; [apply (SetSearch_empty_Inv idna_raw c u u' Hi H)|].
+    unfold SetSearch in H.
+    set (u0 := match u_query u with None => set_query u (Some []) | Some _ => u end) in H.
+    assert (Hi0 : Inv c u0).
+    { unfold u0. destruct (u_query u); [exact Hi|]. apply Inv_set_query_some; [exact Hi|reflexivity]. }
+    destruct (after (BasicParser idna_raw c (trim_prefix1 63 (x :: s)) None (Some u0) (Some QuerySt))) as [u2|] eqn:E;
+      [|discriminate H].
+    assert (Hi2 : Inv c u2).
+    { eapply BP_override_Inv; [|exact E]. intros u1 S. unfold MInvO. cbn [m_state m_url m_buf mk].
+      split; [apply (Inv_ext c u0 u1 S Hi0)|reflexivity]. }
+    destruct (u_query u2); [|discriminate H]. injection H as <-. apply Inv_set_sp. exact Hi2.
+  Qed.
+
+  Theorem SetHash_Inv : forall u s u', Inv c u -> SetHash idna_raw c u s = Some u' -> Inv c u'.
+  Proof.
+    intros u s u' Hi H. destruct s as [|x s]; [apply (SetHash_empty_Inv idna_raw c u u' Hi H)|].
+    unfold SetHash in H. eapply BP_override_Inv; [|exact H].
+    intros u1 S. unfold MInvO. cbn [m_state m_url m_buf mk]. split; [|reflexivity].
+    apply (Inv_ext c (set_fragment u (Some [])) u1 S). apply Inv_set_fragment_some; [exact Hi|reflexivity].
+  Qed.
+
+  (* every setter of the API *)
+  Theorem setter_Inv : forall w u v u', Inv c u -> setter idna_raw c w u v = Some u' -> Inv c u'.
+  Proof.
+    intros w u v u' Hi H. unfold setter in H.
+    destruct w as [|w]; [apply (SetProtocol_Inv u v u' Hi H)|].
+    do 3 (destruct w as [w|w|]; try (first
+      [ apply (SetHash_Inv u v u' Hi H) | apply (SetUsername_Inv c u v u' Hi H) | apply (SetPassword_Inv c u v u' Hi H)
+      | apply (SetHost_Inv u v u' Hi H) | apply (SetHostname_Inv u v u' Hi H) | apply (SetPort_Inv u v u' Hi H)
+      | apply (SetPathname_Inv u v u' Hi H) | apply (SetSearch_Inv u v u' Hi H) ])).
+  Qed.
+
+  (* and the observable predicates after any setter *)
+  Theorem setter_obs : forall w u v u', Inv c u -> setter idna_raw c w u v = Some u' ->
+    inv_obs c (obs_url c u') = [] /\ acc_obs c (obs_url c u') = [].
+  Proof.
+    intros w u v u' Hi H. pose proof (setter_Inv w u v u' Hi H) as Hi'.
+    pose proof (cfg_okm_ok c Hc) as Hok.
+    split; [apply Inv_inv_obs|apply Inv_acc_obs]; assumption.
+  Qed.
+End Setters.
+Print Assumptions setter_Inv.
+Print Assumptions setter_obs.
+
+(* The condition c_fail c = false is needed: with fail-on-validation-error a non-fatal validation error
+   aborts the path state after SetPathname has emptied the path, and the record is kept. *)
+Theorem setter_Inv_c_fail_needed :
+  exists c u v u', cfg_okm c = true /\ Inv c u /\ SetPathname idna_toy c u v = Some u' /\
+                   inv_obs c (obs_url c u') = [3] /\ ~ Inv c u'.
+Proof.
+  exists opt_WithFailOnValidationError.
+  exists (set_path (set_host (set_scheme (empty_url []) s_file) (Some [])) [[120]] false).   (* file:///x *)
+  exists [32]. eexists.
+  split; [vm_compute; reflexivity|]. split; [apply inv_b_sound; vm_compute; reflexivity|].
+  split; [vm_compute; reflexivity|]. split; [vm_compute; reflexivity|].
+  intro H. apply inv_b_iff in H. vm_compute in H. discriminate H.
+Qed.
+Print Assumptions setter_Inv_c_fail_needed.
+
+(* ------------------------------------------------------------------ *)
+(* Operation histories (Obs.hstep): both slots keep the invariant        *)
+
+Definition hinv (c : cfg) (s : hstate) : Prop := forall slot u, get s slot = Some u -> Inv c u.
+
+Definition sp_mutation (o : op) : bool :=
+  match o with
+  | OSpAppend _ _ _ | OSpDelete _ _ | OSpSet _ _ _ | OSpSort _ | OSpSortAbs _ => true
+  | _ => false
+  end.
+
+Lemma hinv_put : forall c s slot o, hinv c s -> (forall u, o = Some u -> Inv c u) -> hinv c (put s slot o).
+Proof.
+  intros c [a b] slot o H Ho slot' u E. unfold put, get in *. cbn [fst snd] in *.
+  destruct slot, slot'; cbn [fst snd] in E.
+  - apply Ho. exact E.
+  - apply (H false u E).
+  - apply (H true u E).
+  - apply Ho. exact E.
+Qed.
+
+Lemma ensure_sp_Inv : forall c u, Inv c u -> Inv c (fst (ensure_sp c u)).
+Proof.
+  intros c u H. unfold ensure_sp. destruct (u_sp u); cbn [fst]; [exact H|apply Inv_set_sp; exact H].
+Qed.
+
+Lemma ensure_sp_special : forall c u, IsSpecialScheme c (fst (ensure_sp c u)) = IsSpecialScheme c u.
+Proof. intros c u. unfold ensure_sp. destruct (u_sp u); reflexivity. Qed.
+
+Section Histories.
+  Variable idna_raw : str -> str * bool.
+  Hypothesis HH3 : H3 idna_raw.
+  Variable c : cfg.
+  Hypothesis Hc : cfg_okm c = true.
+  Hypothesis Hnf : c_fail c = false.
+
+  Lemma with_sp_Inv : forall s slot f, hinv c s -> sp_chars_ok (c_querySet c) = true ->
+    (forall u, get s slot = Some u -> IsSpecialScheme c u = false) -> hinv c (with_sp c s slot f).
+  Proof.
+    intros s slot f H Hq Hns. unfold with_sp. destruct (get s slot) as [u|] eqn:E; [|exact H].
+    pose proof (ensure_sp_Inv c u (H slot u E)) as Hi. pose proof (ensure_sp_special c u) as Hs.
+    destruct (ensure_sp c u) as [u1 l]. cbn [fst] in Hi, Hs.
+    apply hinv_put; [exact H|]. intros u2 E2. injection E2 as <-.
+    apply sp_update_Inv; [exact Hq| |exact Hi]. rewrite Hs. apply Hns. reflexivity.
+  Qed.
+
+  Theorem hstep_Inv : forall s o, hinv c s ->
+    (sp_mutation o = true -> sp_chars_ok (c_querySet c) = true /\
+                             forall slot u, get s slot = Some u -> IsSpecialScheme c u = false) ->
+    hinv c (fst (hstep idna_raw c s o)).
+  Proof.
+    intros s o H Hsp. destruct o as [slot w v|slot ref|ref|from|slot n v|slot n|slot n v|slot|slot|slot n|slot];
+      cbn [hstep sp_mutation] in *.
+    - destruct (get s slot) as [u|] eqn:E; [|exact H].
+      destruct (setter idna_raw c w u v) as [u'|] eqn:ES; cbn [fst].
+      + apply hinv_put; [exact H|]. intros u2 E2. injection E2 as <-.
+        apply (setter_Inv idna_raw HH3 c Hc Hnf w u v u' (H slot u E) ES).
+      + apply hinv_put; [exact H|]. intros u2 E2. discriminate E2.
+    - destruct (get s slot) as [u|] eqn:E; [|exact H].
+      destruct (UrlParse idna_raw c u ref) as [u'|e| | |] eqn:EP; cbn [fst]; try exact H;
+        try (apply hinv_put; [exact H|]; intros u2 E2; discriminate E2).
+      apply hinv_put; [exact H|]. intros u2 E2. injection E2 as <-.
+      apply (UrlParse_Inv idna_raw HH3 c Hc u ref u' (H slot u E) EP).
+    - destruct (fst s) as [u|] eqn:E; [|exact H].
+      destruct (UrlParse idna_raw c u ref) as [u'|e| | |] eqn:EP; cbn [fst]; try exact H;
+        try (apply hinv_put; [exact H|]; intros u2 E2; discriminate E2).
+      apply hinv_put; [exact H|]. intros u2 E2. injection E2 as <-.
+      apply (UrlParse_Inv idna_raw HH3 c Hc u ref u'); [apply (H false u E)|exact EP].
+    - destruct (get s from) as [u|] eqn:E; [|exact H]. cbn [fst].
+      apply hinv_put; [exact H|]. intros u2 E2. injection E2 as <-. apply Clone_Inv. apply (H from u E).
+    - destruct (Hsp eq_refl) as [Hq Hns]. apply with_sp_Inv; [exact H|exact Hq|apply Hns].
+    - destruct (Hsp eq_refl) as [Hq Hns]. apply with_sp_Inv; [exact H|exact Hq|apply Hns].
+    - destruct (Hsp eq_refl) as [Hq Hns]. apply with_sp_Inv; [exact H|exact Hq|apply Hns].
+    - destruct (Hsp eq_refl) as [Hq Hns]. apply with_sp_Inv; [exact H|exact Hq|apply Hns].
+    - destruct (Hsp eq_refl) as [Hq Hns]. apply with_sp_Inv; [exact H|exact Hq|apply Hns].
+    - destruct (get s slot) as [u|] eqn:E; [|exact H].
+      pose proof (ensure_sp_Inv c u (H slot u E)) as Hi. destruct (ensure_sp c u) as [u1 l]. cbn [fst] in *.
+      apply hinv_put; [exact H|]. intros u2 E2. injection E2 as <-. exact Hi.
+    - destruct (get s slot) as [u|] eqn:E; [|exact H]. cbn [fst].
+      apply hinv_put; [exact H|]. intros u2 E2. injection E2 as <-. apply ensure_sp_Inv. apply (H slot u E).
+  Qed.
+End Histories.
+Print Assumptions hstep_Inv.
+
+(* every observation made along a history of parses, setters, resolutions, clones and read-only
+   SearchParams operations satisfies C04 and C19 *)
+Definition slot_ok (c : cfg) (l : list str) : Prop :=
+  l = [[45]] \/ (inv_obs c l = [] /\ acc_obs c l = []).
+
+Section HistoryObs.
+  Variable idna_raw : str -> str * bool.
+  Hypothesis HH3 : H3 idna_raw.
+  Variable c : cfg.
+  Hypothesis Hc : cfg_okm c = true.
+  Hypothesis Hnf : c_fail c = false.
+
+  Lemma obs_slot_ok : forall o, (forall u, o = Some u -> Inv c u) -> slot_ok c (obs_slot c o).
+  Proof.
+    intros [u|] H; [|left; reflexivity]. right. pose proof (cfg_okm_ok c Hc) as Hok.
+    split; [apply Inv_inv_obs|apply Inv_acc_obs]; try assumption; apply H; reflexivity.
+  Qed.
+
+  Theorem hrun_ok : forall ops s, hinv c s -> forallb (fun o => negb (sp_mutation o)) ops = true ->
+    Forall (fun x => slot_ok c (snd (fst x)) /\ slot_ok c (snd x)) (hrun idna_raw c s ops).
+  Proof.
+    induction ops as [|o ops IH]; intros s H Hops; [constructor|].
+    cbn [forallb] in Hops. apply andb_true_iff in Hops. destruct Hops as [Ho Hops]. apply negb_true_iff in Ho.
+    cbn [hrun]. pose proof (hstep_Inv idna_raw HH3 c Hc Hnf s o H) as Hs.
+    destruct (hstep idna_raw c s o) as [s' extra]. cbn [fst] in Hs.
+    assert (Hs' : hinv c s') by (apply Hs; intro E; rewrite Ho in E; discriminate E).
+    constructor; [|apply IH; assumption]. cbn [fst snd]. split; apply obs_slot_ok.
+    - intros u E. apply (Hs' false u E).
+    - intros u E. apply (Hs' true u E).
+  Qed.
+
+  Theorem history_ok : forall b input ops, forallb (fun o => negb (sp_mutation o)) ops = true ->
+    (match fst (history idna_raw c b input ops) with OUrl l => slot_ok c l | _ => True end) /\
+    Forall (fun x => slot_ok c (snd (fst x)) /\ slot_ok c (snd x)) (snd (history idna_raw c b input ops)).
+  Proof.
+    intros b input ops Hops. unfold history.
+    set (r := match b with Some b0 => ParseRef idna_raw c b0 input | None => Parse idna_raw c input end).
+    assert (Hr : forall u, r = PUrl u -> Inv c u).
+    { intros u E. unfold r in E. destruct b as [b0|];
+        [apply (ParseRef_Inv idna_raw HH3 c Hc b0 input u E)|apply (Parse_Inv idna_raw HH3 c Hc input u E)]. }
+    cbn [fst snd]. destruct r as [u| e | | |] eqn:Er; cbn [obs_pres]; try (split; [exact I|constructor]).
+    split.
+    - right. pose proof (cfg_okm_ok c Hc) as Hok.
+      split; [apply Inv_inv_obs|apply Inv_acc_obs]; try assumption; apply Hr; reflexivity.
+    - apply hrun_ok; [|exact Hops]. intros slot u' E. destruct slot; cbn [get fst snd] in E; [discriminate E|].
+      injection E as <-. apply Hr. reflexivity.
+  Qed.
+End HistoryObs.
+Print Assumptions history_ok.
+
+(* the premises hold: default configuration, toy oracle, a history of setters on a parsed URL *)
+Example history_example :
+  cfg_okm default_cfg = true /\ c_fail default_cfg = false /\ H3 idna_toy /\
+  exists u1 u2 u3,
+    Parse idna_toy default_cfg ex_input = PUrl u1 /\
+    SetHost idna_toy default_cfg u1 [91;58;58;49;93;58;52;52;51] = Some u2 /\      (* "[::1]:443" *)
+    SetPathname idna_toy default_cfg u2 [47;46;46;47;47;120;32;121] = Some u3 /\    (* "/..//x y" *)
+    Inv default_cfg u3.
+Proof.
+  split; [vm_compute; reflexivity|]. split; [reflexivity|]. split; [exact H3_toy|].
+  eexists. eexists. eexists. split; [vm_compute; reflexivity|]. split; [vm_compute; reflexivity|].
+  split; [vm_compute; reflexivity|]. apply inv_b_sound. vm_compute. reflexivity.
+Qed.
+
+(* ------------------------------------------------------------------ *)
+(* The conditions of [cfg_okm] are needed: configurations violating one of them, an input, and the
+   failing clause of [inv_obs] on the parse result (oracle: idna_toy).                              *)
+
+Definition parse_fails_clause (c : cfg) (s : str) (n : N) : Prop :=
+  exists u, Parse idna_toy c s = PUrl u /\ inv_obs c (obs_url c u) = [n].
+
+(* skipTrailingSlashNormalization: "http://h" keeps an empty path on a special URL (clause 3) *)
+Theorem cfg_okm_trail_needed :
+  cfg_okm opt_WithSkipTrailingSlashNormalization = false /\
+  parse_fails_clause opt_WithSkipTrailingSlashNormalization [104;116;116;112;58;47;47;104] 3.
+Proof. split; [vm_compute; reflexivity|]. eexists. split; vm_compute; reflexivity. Qed.
+
+(* laxHostParsing: "http://a b/" gets the host "a%20b", and '%' is a forbidden domain code point (clause 12) *)
+Theorem cfg_okm_lax_needed :
+  cfg_okm opt_WithLaxHostParsing = false /\
+  parse_fails_clause opt_WithLaxHostParsing [104;116;116;112;58;47;47;97;32;98;47] 12.
+Proof. split; [vm_compute; reflexivity|]. eexists. split; vm_compute; reflexivity. Qed.
+
+(* a pre-parse host function (the GoogleSafeBrowsing profile strips dots): "http://.../x" parses to a
+   special URL with an EMPTY host, serialized "http:///x" (clause 3); parsing that again gives "http://x/" *)
+Theorem cfg_okm_pre_needed :
+  cfg_okm (p_cfg prof_GoogleSafeBrowsing) = false /\
+  parse_fails_clause (p_cfg prof_GoogleSafeBrowsing) [104;116;116;112;58;47;47;46;46;46;47;120] 3.
+Proof. split; [vm_compute; reflexivity|]. eexists. split; vm_compute; reflexivity. Qed.
+
+Theorem gsb_empty_host_not_stable :
+  exists u u', Parse idna_toy (p_cfg prof_GoogleSafeBrowsing) [104;116;116;112;58;47;47;46;46;46;47;120] = PUrl u /\
+               u_host u = Some [] /\
+               Parse idna_toy (p_cfg prof_GoogleSafeBrowsing) (opt2s (Href u false)) = PUrl u' /\
+               u_host u' = Some [120].
+Proof. eexists. eexists. split; [vm_compute; reflexivity|]. split; [reflexivity|]. split; vm_compute; reflexivity. Qed.
+
+(* an encode set containing a hex digit of its own escapes (the sentinel set contains 'A'):
+   "http://h/Az" gets the path "/%41%7A" (clause 9) *)
+Theorem cfg_okm_closed_needed :
+  cfg_okm opt_WithPathPercentEncodeSet = false /\
+  parse_fails_clause opt_WithPathPercentEncodeSet [104;116;116;112;58;47;47;104;47;65;122] 9.
+Proof. split; [vm_compute; reflexivity|]. eexists. split; vm_compute; reflexivity. Qed.
+
+(* further premises examples *)
+Example parseHost_example :
+  parseHost idna_toy default_cfg ex_url [69;88;46;111;114;103] false = Ok ex_url [101;120;46;111;114;103].
+Proof. vm_compute. reflexivity. Qed.
+
+Example sp_update_example :
+  let u := set_path (set_host (set_scheme (empty_url []) [115;99]) (Some [104])) [[]] false in   (* sc://h/ *)
+  Inv default_cfg u /\ IsSpecialScheme default_cfg u = false /\
+  Inv default_cfg (sp_update default_cfg u [([97], [39])]).
+Proof.
+  cbv zeta. split; [apply inv_b_sound; vm_compute; reflexivity|]. split; [reflexivity|].
+  apply inv_b_sound. vm_compute. reflexivity.
 Qed.
